@@ -1,781 +1,3 @@
-// GENERATED by harness/gen/zoo.py - build artefact, do not edit
-pub const GEN_HASH: &str = "4880ac9c4332dbb9";
-shredh::zoo_case!(c8, 8, 'a, (Option<Write<'a, D3>>, ));
-#[derive(SystemData)] pub struct Z16_1<'a, T0> where T0: Debug + Resource + for<'b> Hrtb<'b> { pub f0: WriteExpect<'a, T0>, }
-#[derive(SystemData)] pub struct Z16_0<'a>(pub Z16_1<'a, N2>, pub (Option<Read<'a, N2, PanicHandler>>, ));
-shredh::zoo_case!(c16, 16, 'a, Z16_0<'a>);
-shredh::zoo_case!(c24, 24, 'a, ((), ));
-shredh::zoo_case!(c32, 32, 'a, ((Option<Read<'a, D0, PanicHandler>>, ), (Write<'a, D0, PanicHandler>, ), ));
-#[derive(SystemData)] pub struct Z40_0<'a> { pub f0: Write<'a, N3, PanicHandler>, }
-shredh::zoo_case!(c40, 40, 'a, Z40_0<'a>);
-shredh::zoo_case!(c48, 48, 'a, (Write<'a, D3, DefaultProvider>, Option<Write<'a, D3>>, Write<'a, D3, PanicHandler>, ));
-#[derive(SystemData)] pub struct Z56_0<'a>(Option<WriteExpect<'a, D3>>);
-shredh::zoo_case!(c56, 56, 'a, (Z56_0<'a>, Write<'a, D3, Hc<D2>>, ));
-#[derive(SystemData)] pub struct Z64_0<'a>(pub Option<WriteExpect<'a, D1>>, pub ReadExpect<'a, N3>, pub ReadExpect<'a, D1>);
-shredh::zoo_case!(c64, 64, 'a, Z64_0<'a>);
-#[derive(SystemData)] pub struct Z72_0<'a, U0: SystemData<'a>>(pub (Read<'a, D1, Hc<D0>>, ), pub U0);
-shredh::zoo_case!(c72, 72, 'a, Z72_0<'a, Write<'a, D1, Hc<D0>>>);
-#[derive(SystemData)] pub struct Z80_0<'a, T0: Debug + Resource + for<'b> Hrtb<'b>, T1: Resource, T2: Resource> { f0: Option<WriteExpect<'a, T0>>, f1: Option<WriteExpect<'a, T1>>, f2: Option<Read<'a, T2, PanicHandler>>, }
-shredh::zoo_case!(c80, 80, 'a, Z80_0<'a, N3, N3, N1>);
-#[derive(SystemData)] pub struct Z88_1<'a>(pub Option<Write<'a, D2>>);
-#[derive(SystemData)] pub struct Z88_0<'a> { f0: Z88_1<'a>, f1: Read<'a, D2, PanicHandler>, }
-shredh::zoo_case!(c88, 88, 'a, Z88_0<'a>);
-shredh::zoo_case!(c96, 96, 'a, Option<ReadExpect<'a, D1>>);
-shredh::zoo_case!(c104, 104, 'a, (Read<'a, N3, PanicHandler>, ReadExpect<'a, N3>, ));
-shredh::zoo_case!(c112, 112, 'a, ((Write<'a, D1, DefaultProvider>, ), ));
-#[derive(SystemData)] pub struct Z120_0<'a, T0: Resource + Default, T1: Debug + Resource + for<'b> Hrtb<'b>>(Write<'a, T0>, Write<'a, T1, PanicHandler>);
-shredh::zoo_case!(c120, 120, 'a, Z120_0<'a, D3, D3>);
-#[derive(SystemData)] pub struct Z128_0<'a>((Write<'a, D0, Hc<D1>>, ));
-shredh::zoo_case!(c128, 128, 'a, Z128_0<'a>);
-#[derive(SystemData)] pub struct Z136_0<'a> { pub f0: Read<'a, D2, PanicHandler>, pub f1: WriteExpect<'a, D2>, }
-shredh::zoo_case!(c136, 136, 'a, Z136_0<'a>);
-#[derive(SystemData)] pub struct Z144_1<'a, T0: Resource>(pub WriteExpect<'a, T0>);
-#[derive(SystemData)] pub struct Z144_0<'a> { pub f0: Z144_1<'a, D0>, }
-shredh::zoo_case!(c144, 144, 'a, Z144_0<'a>);
-#[derive(SystemData)] pub struct Z152_0<'a>(Read<'a, N3, PanicHandler>);
-#[derive(SystemData)] pub struct Z152_1<'a>(pub Option<Read<'a, N3, PanicHandler>>);
-shredh::zoo_case!(c152, 152, 'a, (Z152_0<'a>, Z152_1<'a>, ));
-shredh::zoo_case!(c160, 160, 'a, (WriteExpect<'a, N2>, ));
-#[derive(SystemData)] pub struct Z168_1<'a, T0> where T0: Resource + ZRes { f0: Read<'a, T0, DefaultProvider>, }
-#[derive(SystemData)] pub struct Z168_2<'a>(Write<'a, D2, Hc<D0>>);
-#[derive(SystemData)] pub struct Z168_0<'a>(pub Z168_1<'a, D2>, pub Z168_2<'a>);
-shredh::zoo_case!(c168, 168, 'a, Z168_0<'a>);
-#[derive(SystemData)] pub struct Z176_0<'a>(Option<ReadExpect<'a, N0>>);
-shredh::zoo_case!(c176, 176, 'a, Z176_0<'a>);
-#[derive(SystemData)] pub struct Z184_1<'a> { f0: Write<'a, D1, Hc<D0>>, }
-#[derive(SystemData)] pub struct Z184_2<'a, T0>(pub Write<'a, T0, Hc<D1>>) where T0: Debug + Resource;
-#[derive(SystemData)] pub struct Z184_0<'a> { f0: Z184_1<'a>, f1: Z184_2<'a, D0>, }
-shredh::zoo_case!(c184, 184, 'a, Z184_0<'a>);
-shredh::zoo_case!(c192, 192, 'a, (Read<'a, N0, PanicHandler>, ));
-shredh::zoo_case!(c200, 200, 'a, (Write<'a, D1, DefaultProvider>, WriteExpect<'a, N2>, Read<'a, D1, PanicHandler>, ));
-shredh::zoo_case!(c208, 208, 'a, (Option<Write<'a, N1>>, ((), ), ));
-#[derive(SystemData)] pub struct Z216_0<'a, U0, U1: SystemData<'a>>(U0, ReadExpect<'a, D3>, U1) where U0: SystemData<'a>;
-shredh::zoo_case!(c216, 216, 'a, Z216_0<'a, Read<'a, D3, PanicHandler>, WriteExpect<'a, D1>>);
-#[derive(SystemData)] pub struct Z224_1<'a> { f0: PhantomData<&'a u8>, }
-#[derive(SystemData)] pub struct Z224_0<'a>(PhantomData<D0>, Z224_1<'a>);
-shredh::zoo_case!(c224, 224, 'a, Z224_0<'a>);
-#[derive(SystemData)] pub struct Z232_0<'a, U0> where U0: SystemData<'a> { pub f0: U0, pub f1: (), pub f2: WriteExpect<'a, D3>, }
-shredh::zoo_case!(c232, 232, 'a, Z232_0<'a, Option<WriteExpect<'a, D3>>>);
-#[derive(SystemData)] pub struct Z240_0<'a> { f0: Write<'a, D1>, f1: (ReadExpect<'a, D1>, ), }
-shredh::zoo_case!(c240, 240, 'a, Z240_0<'a>);
-shredh::zoo_case!(c248, 248, 'a, Write<'a, D2>);
-shredh::zoo_case!(c256, 256, 'a, (Write<'a, D2, DefaultProvider>, Read<'a, D2>, ));
-#[derive(SystemData)] pub struct Z264_0<'a>(pub Read<'a, D0, Hc<D2>>);
-shredh::zoo_case!(c264, 264, 'a, (Z264_0<'a>, ));
-#[derive(SystemData)] pub struct Z272_0<'a>(pub Write<'a, D3>, pub Write<'a, D3, Hc<D1>>);
-shredh::zoo_case!(c272, 272, 'a, Z272_0<'a>);
-#[derive(SystemData)] pub struct Z280_0<'a>((Write<'a, D1>, ));
-shredh::zoo_case!(c280, 280, 'a, Z280_0<'a>);
-#[derive(SystemData)] pub struct Z288_0<'a> { pub f0: Write<'a, D0>, pub f1: Option<Read<'a, D0>>, }
-shredh::zoo_case!(c288, 288, 'a, Z288_0<'a>);
-#[derive(SystemData)] pub struct Z296_0<'a> { f0: (Option<Read<'a, D3, PanicHandler>>, ), }
-shredh::zoo_case!(c296, 296, 'a, Z296_0<'a>);
-shredh::zoo_case!(c304, 304, 'a, ((Read<'a, D3, Hc<D2>>, ), (Read<'a, D2, PanicHandler>, ), ));
-shredh::zoo_case!(c312, 312, 'a, (Read<'a, D0, DefaultProvider>, ));
-shredh::zoo_case!(c320, 320, 'a, ((Read<'a, D2, Hc<D0>>, ), (Read<'a, D0, PanicHandler>, ), ));
-#[derive(SystemData)] pub struct Z328_0<'a>(pub Option<Read<'a, N3, PanicHandler>>);
-shredh::zoo_case!(c328, 328, 'a, Z328_0<'a>);
-#[derive(SystemData)] pub struct Z336_1<'a>(pub Option<Write<'a, D3>>);
-#[derive(SystemData)] pub struct Z336_0<'a> { pub f0: (Write<'a, D3>, ), pub f1: Z336_1<'a>, }
-shredh::zoo_case!(c336, 336, 'a, Z336_0<'a>);
-#[derive(SystemData)] pub struct Z344_0<'a> { pub f0: Option<Write<'a, N2>>, }
-shredh::zoo_case!(c344, 344, 'a, Z344_0<'a>);
-shredh::zoo_case!(c352, 352, 'a, (Read<'a, D3, DefaultProvider>, WriteExpect<'a, D3>, Option<Read<'a, D3>>, ));
-#[derive(SystemData)] pub struct Z360_0<'a>(pub Read<'a, D3>);
-shredh::zoo_case!(c360, 360, 'a, (Z360_0<'a>, Option<Write<'a, D3, PanicHandler>>, ));
-#[derive(SystemData)] pub struct Z368_0<'a, T0: Resource + ZRes + Default>((), Write<'a, T0>, Write<'a, D2>);
-shredh::zoo_case!(c368, 368, 'a, Z368_0<'a, D1>);
-#[derive(SystemData)] pub struct Z376_0<'a, T0: Resource>(pub Option<Write<'a, T0>>, pub (Write<'a, D3, Hc<D0>>, ));
-shredh::zoo_case!(c376, 376, 'a, Z376_0<'a, D3>);
-shredh::zoo_case!(c384, 384, 'a, (Read<'a, D0, PanicHandler>, Write<'a, D3>, Option<Read<'a, D3, PanicHandler>>, ));
-#[derive(SystemData)] pub struct Z392_1<'a, T0>(Write<'a, T0, Hc<D0>>) where T0: Debug + Resource;
-#[derive(SystemData)] pub struct Z392_0<'a, U0> where U0: SystemData<'a> { f0: Write<'a, D0, DefaultProvider>, f1: U0, }
-shredh::zoo_case!(c392, 392, 'a, Z392_0<'a, Z392_1<'a, D1>>);
-shredh::zoo_case!(c400, 400, 'a, Write<'a, D0, DefaultProvider>);
-shredh::zoo_case!(c408, 408, 'a, (Option<Write<'a, D3, PanicHandler>>, Option<Read<'a, N2, PanicHandler>>, ));
-#[derive(SystemData)] pub struct Z416_0<'a>(PhantomData<&'a u8>);
-shredh::zoo_case!(c416, 416, 'a, (Z416_0<'a>, ));
-#[derive(SystemData)] pub struct Z424_0<'a>(Write<'a, N3, PanicHandler>, Write<'a, N3, PanicHandler>);
-shredh::zoo_case!(c424, 424, 'a, Z424_0<'a>);
-shredh::zoo_case!(c432, 432, 'a, (((), ), ));
-#[derive(SystemData)] pub struct Z440_0<'a, 'x> { pub f0: PhantomData<&'x i64>, pub f1: Option<Write<'a, N1, PanicHandler>>, }
-shredh::zoo_case!(c440, 440, 'a, Z440_0<'a, 'a>);
-#[derive(SystemData)] pub struct Z448_1<'a>(Write<'a, D3, Hc<D2>>);
-#[derive(SystemData)] pub struct Z448_0<'a> { f0: Z448_1<'a>, }
-shredh::zoo_case!(c448, 448, 'a, Z448_0<'a>);
-shredh::zoo_case!(c456, 456, 'a, ((Option<Read<'a, N3>>, ), (Option<Read<'a, N3, PanicHandler>>, ), ));
-shredh::zoo_case!(c464, 464, 'a, (Option<Write<'a, N1>>, ));
-#[derive(SystemData)] pub struct Z472_1<'a> { f0: Read<'a, D1, Hc<D3>>, }
-#[derive(SystemData)] pub struct Z472_0<'a>(pub Z472_1<'a>, pub (PhantomData<u8>, ));
-shredh::zoo_case!(c472, 472, 'a, Z472_0<'a>);
-#[derive(SystemData)] pub struct Z480_0<'a>(pub Write<'a, D2, Hc<D3>>);
-shredh::zoo_case!(c480, 480, 'a, Z480_0<'a>);
-#[derive(SystemData)] pub struct Z488_1<'a> { f0: Write<'a, D0, Hc<D1>>, }
-#[derive(SystemData)] pub struct Z488_2<'a> { pub f0: Write<'a, D0, DefaultProvider>, }
-#[derive(SystemData)] pub struct Z488_0<'a> { pub f0: Z488_1<'a>, pub f1: Z488_2<'a>, }
-shredh::zoo_case!(c488, 488, 'a, Z488_0<'a>);
-shredh::zoo_case!(c496, 496, 'a, (Write<'a, D2, DefaultProvider>, ));
-shredh::zoo_case!(c504, 504, 'a, (Write<'a, D0>, Read<'a, D3, DefaultProvider>, Option<Write<'a, D3, PanicHandler>>, ));
-shredh::zoo_case!(c512, 512, 'a, (Write<'a, D0, Hc<D1>>, (Write<'a, D0, Hc<D1>>, ), ));
-#[derive(SystemData)] pub struct Z520_0<'a>(ReadExpect<'a, D2>, Option<WriteExpect<'a, D2>>, Write<'a, D0>);
-shredh::zoo_case!(c520, 520, 'a, Z520_0<'a>);
-#[derive(SystemData)] pub struct Z528_0<'a>(pub Option<Write<'a, D0>>, pub (Write<'a, D0, PanicHandler>, ));
-shredh::zoo_case!(c528, 528, 'a, Z528_0<'a>);
-#[derive(SystemData)] pub struct Z536_0<'a> { pub f0: Option<Read<'a, N1, PanicHandler>>, pub f1: WriteExpect<'a, N0>, pub f2: Option<Read<'a, N1>>, }
-shredh::zoo_case!(c536, 536, 'a, Z536_0<'a>);
-#[derive(SystemData)] pub struct Z544_0<'a>(PhantomData<&'a u8>);
-shredh::zoo_case!(c544, 544, 'a, (Z544_0<'a>, Read<'a, D3, DefaultProvider>, ));
-shredh::zoo_case!(c552, 552, 'a, ());
-shredh::zoo_case!(c560, 560, 'a, (Write<'a, D3, Hc<D0>>, Option<WriteExpect<'a, D3>>, ));
-shredh::zoo_case!(c568, 568, 'a, ((Write<'a, D3>, ), ));
-#[derive(SystemData)] pub struct Z576_0<'a>(pub Option<Write<'a, D2, PanicHandler>>, pub Read<'a, D0, PanicHandler>);
-shredh::zoo_case!(c576, 576, 'a, Z576_0<'a>);
-#[derive(SystemData)] pub struct Z584_1<'a, T0: Resource>(pub Option<Read<'a, T0>>);
-#[derive(SystemData)] pub struct Z584_0<'a>(Z584_1<'a, N0>);
-shredh::zoo_case!(c584, 584, 'a, Z584_0<'a>);
-#[derive(SystemData)] pub struct Z592_0<'a, T0, T1: Debug + Resource + Default> where T0: Resource { f0: Option<Read<'a, T0>>, f1: Read<'a, T1>, }
-shredh::zoo_case!(c592, 592, 'a, Z592_0<'a, N3, D2>);
-shredh::zoo_case!(c600, 600, 'a, ((Read<'a, D3, PanicHandler>, ), ));
-#[derive(SystemData)] pub struct Z608_0<'a, T0: Resource> { f0: Option<ReadExpect<'a, T0>>, }
-shredh::zoo_case!(c608, 608, 'a, (Z608_0<'a, D3>, (Read<'a, D3, PanicHandler>, ), ));
-#[derive(SystemData)] pub struct Z616_1<'a>(pub Option<Write<'a, D1, PanicHandler>>);
-#[derive(SystemData)] pub struct Z616_0<'a, U0> where U0: SystemData<'a> { f0: U0, f1: Write<'a, D3, Hc<D1>>, }
-shredh::zoo_case!(c616, 616, 'a, Z616_0<'a, Z616_1<'a>>);
-#[derive(SystemData)] pub struct Z624_0<'a> { f0: Read<'a, D1, DefaultProvider>, f1: Write<'a, D1>, }
-shredh::zoo_case!(c624, 624, 'a, Z624_0<'a>);
-#[derive(SystemData)] pub struct Z632_1<'a, T0: Resource + ZRes> { pub f0: Write<'a, T0, Hc<D0>>, }
-#[derive(SystemData)] pub struct Z632_2<'a, T0>(Option<Read<'a, T0, PanicHandler>>) where T0: Resource;
-#[derive(SystemData)] pub struct Z632_0<'a> { f0: Z632_1<'a, D2>, f1: Z632_2<'a, D2>, }
-shredh::zoo_case!(c632, 632, 'a, Z632_0<'a>);
-#[derive(SystemData)] pub struct Z640_0<'a, T0: Resource> { f0: WriteExpect<'a, N1>, f1: Option<ReadExpect<'a, T0>>, f2: Option<ReadExpect<'a, D0>>, }
-shredh::zoo_case!(c640, 640, 'a, Z640_0<'a, D0>);
-#[derive(SystemData)] pub struct Z648_1<'a> { pub f0: WriteExpect<'a, D1>, }
-#[derive(SystemData)] pub struct Z648_0<'a>(pub Z648_1<'a>);
-shredh::zoo_case!(c648, 648, 'a, Z648_0<'a>);
-#[derive(SystemData)] pub struct Z656_0<'a, T0: Debug + Resource, T1: Debug + Resource + for<'b> Hrtb<'b> + Default>(pub Option<WriteExpect<'a, T0>>, pub Read<'a, T1, DefaultProvider>);
-shredh::zoo_case!(c656, 656, 'a, Z656_0<'a, N1, D2>);
-#[derive(SystemData)] pub struct Z664_0<'a>((), (Read<'a, D1, Hc<D2>>, ));
-shredh::zoo_case!(c664, 664, 'a, Z664_0<'a>);
-#[derive(SystemData)] pub struct Z672_0<'a>(pub Option<Read<'a, D0, PanicHandler>>, pub Option<WriteExpect<'a, D0>>, pub Write<'a, D0>);
-shredh::zoo_case!(c672, 672, 'a, Z672_0<'a>);
-#[derive(SystemData)] pub struct Z680_0<'a>(pub Option<WriteExpect<'a, D2>>);
-#[derive(SystemData)] pub struct Z680_1<'a, T0: Debug + Resource + for<'b> Hrtb<'b> + Default>(pub Write<'a, T0, DefaultProvider>);
-shredh::zoo_case!(c680, 680, 'a, (Z680_0<'a>, Z680_1<'a, D2>, ));
-#[derive(SystemData)] pub struct Z688_1<'a> { f0: PhantomData<&'a u8>, }
-#[derive(SystemData)] pub struct Z688_2<'a>(Option<WriteExpect<'a, D0>>);
-#[derive(SystemData)] pub struct Z688_0<'a> { pub f0: Z688_1<'a>, pub f1: Z688_2<'a>, }
-shredh::zoo_case!(c688, 688, 'a, Z688_0<'a>);
-#[derive(SystemData)] pub struct Z696_0<'a>(pub WriteExpect<'a, N2>, pub Write<'a, D3, PanicHandler>, pub Option<Write<'a, D3>>);
-shredh::zoo_case!(c696, 696, 'a, Z696_0<'a>);
-#[derive(SystemData)] pub struct Z704_0<'a, T0>(pub ReadExpect<'a, T0>) where T0: Debug + Resource + for<'b> Hrtb<'b>;
-shredh::zoo_case!(c704, 704, 'a, (Z704_0<'a, D1>, (Write<'a, D1, Hc<D3>>, ), ));
-#[derive(SystemData)] pub struct Z712_1<'a>(ReadExpect<'a, D0>);
-#[derive(SystemData)] pub struct Z712_0<'a> { pub f0: (Write<'a, D2, Hc<D0>>, ), pub f1: Z712_1<'a>, }
-shredh::zoo_case!(c712, 712, 'a, Z712_0<'a>);
-#[derive(SystemData)] pub struct Z720_0<'a>(Option<WriteExpect<'a, D1>>, Option<Read<'a, N0, PanicHandler>>, Write<'a, D1, DefaultProvider>);
-shredh::zoo_case!(c720, 720, 'a, Z720_0<'a>);
-#[derive(SystemData)] pub struct Z728_0<'a>(pub Option<Read<'a, D0, PanicHandler>>);
-#[derive(SystemData)] pub struct Z728_1<'a> { f0: Write<'a, D0, Hc<D1>>, }
-shredh::zoo_case!(c728, 728, 'a, (Z728_0<'a>, Z728_1<'a>, ));
-shredh::zoo_case!(c736, 736, 'a, ((Write<'a, D1, Hc<D2>>, ), (WriteExpect<'a, D1>, ), ));
-#[derive(SystemData)] pub struct Z744_0<'a, U0>(Option<Read<'a, N1>>, U0, Option<Read<'a, N1, PanicHandler>>) where U0: SystemData<'a>;
-shredh::zoo_case!(c744, 744, 'a, Z744_0<'a, WriteExpect<'a, N1>>);
-shredh::zoo_case!(c752, 752, 'a, ((Write<'a, N0, PanicHandler>, ), (Option<Read<'a, N0>>, ), ));
-#[derive(SystemData)] pub struct Z760_1<'a> { f0: Read<'a, D0, Hc<D3>>, }
-#[derive(SystemData)] pub struct Z760_0<'a, U0: SystemData<'a>> { f0: U0, f1: Z760_1<'a>, }
-shredh::zoo_case!(c760, 760, 'a, Z760_0<'a, (Option<Write<'a, D3, PanicHandler>>, )>);
-#[derive(SystemData)] pub struct Z768_0<'a>(Option<WriteExpect<'a, D3>>, Write<'a, N0, PanicHandler>, PhantomData<(Write<'a, D1>,)>);
-shredh::zoo_case!(c768, 768, 'a, Z768_0<'a>);
-#[derive(SystemData)] pub struct Z776_0<'a>(Read<'a, D2, Hc<D3>>);
-shredh::zoo_case!(c776, 776, 'a, (Z776_0<'a>, (Write<'a, D3, DefaultProvider>, ), ));
-#[derive(SystemData)] pub struct Z784_1<'a>(PhantomData<&'a u8>);
-#[derive(SystemData)] pub struct Z784_0<'a> { f0: (Option<Write<'a, N1>>, ), f1: Z784_1<'a>, }
-shredh::zoo_case!(c784, 784, 'a, Z784_0<'a>);
-#[derive(SystemData)] pub struct Z792_0<'a, T0, T1: Debug + Resource>(pub ReadExpect<'a, T0>, pub ReadExpect<'a, T1>, pub ()) where T0: Resource + ZRes;
-shredh::zoo_case!(c792, 792, 'a, Z792_0<'a, N3, N3>);
-#[derive(SystemData)] pub struct Z800_0<'a> { pub f0: Write<'a, D0>, }
-#[derive(SystemData)] pub struct Z800_1<'a>(Write<'a, D2, Hc<D0>>);
-shredh::zoo_case!(c800, 800, 'a, (Z800_0<'a>, Z800_1<'a>, ));
-#[derive(SystemData)] pub struct Z808_1<'a>(Read<'a, D1, Hc<D2>>);
-#[derive(SystemData)] pub struct Z808_2<'a, T0> where T0: Resource { pub f0: Option<ReadExpect<'a, T0>>, }
-#[derive(SystemData)] pub struct Z808_0<'a> { pub f0: Z808_1<'a>, pub f1: Z808_2<'a, D1>, }
-shredh::zoo_case!(c808, 808, 'a, Z808_0<'a>);
-#[derive(SystemData)] pub struct Z816_0<'a>(pub Write<'a, D2, PanicHandler>, pub Write<'a, D2, PanicHandler>, pub Write<'a, D2, DefaultProvider>);
-shredh::zoo_case!(c816, 816, 'a, Z816_0<'a>);
-#[derive(SystemData)] pub struct Z824_0<'a, T0: Debug + Resource + Default> { f0: Write<'a, T0, DefaultProvider>, }
-#[derive(SystemData)] pub struct Z824_1<'a>(pub Read<'a, D2, Hc<D1>>);
-shredh::zoo_case!(c824, 824, 'a, (Z824_0<'a, D1>, Z824_1<'a>, ));
-#[derive(SystemData)] pub struct Z832_1<'a>(pub Write<'a, D2, Hc<D0>>);
-#[derive(SystemData)] pub struct Z832_0<'a> { pub f0: (Write<'a, D0, Hc<D2>>, ), pub f1: Z832_1<'a>, }
-shredh::zoo_case!(c832, 832, 'a, Z832_0<'a>);
-#[derive(SystemData)] pub struct Z840_0<'a, T0: Debug + Resource, T1>(Read<'a, T0>, Write<'a, T1, DefaultProvider>, ()) where T1: Resource + ZRes;
-shredh::zoo_case!(c840, 840, 'a, Z840_0<'a, D0, D2>);
-#[derive(SystemData)] pub struct Z848_0<'a>(pub Read<'a, D3, Hc<D1>>);
-shredh::zoo_case!(c848, 848, 'a, ((Read<'a, D1>, ), Z848_0<'a>, ));
-#[derive(SystemData)] pub struct Z856_0<'a> { f0: (Write<'a, D3, Hc<D0>>, ), f1: (Write<'a, D3, Hc<D0>>, ), }
-shredh::zoo_case!(c856, 856, 'a, Z856_0<'a>);
-#[derive(SystemData)] pub struct Z864_0<'a, T0, T1>(ReadExpect<'a, T0>, Option<Write<'a, D0, PanicHandler>>, Option<Read<'a, T1>>) where T0: Debug + Resource + for<'b> Hrtb<'b>, T1: Resource + ZRes;
-shredh::zoo_case!(c864, 864, 'a, Z864_0<'a, N2, D0>);
-shredh::zoo_case!(c872, 872, 'a, ((Write<'a, D1, Hc<D3>>, ), (Read<'a, D3, Hc<D1>>, ), ));
-#[derive(SystemData)] pub struct Z880_0<'a, U0> where U0: SystemData<'a> { pub f0: U0, pub f1: (Read<'a, N1, PanicHandler>, ), }
-shredh::zoo_case!(c880, 880, 'a, Z880_0<'a, ((), )>);
-#[derive(SystemData)] pub struct Z888_0<'a>(Read<'a, D1, DefaultProvider>, Write<'a, D0>, Option<Write<'a, D0>>);
-shredh::zoo_case!(c888, 888, 'a, Z888_0<'a>);
-#[derive(SystemData)] pub struct Z896_0<'a, T0>(pub Write<'a, T0, Hc<D0>>) where T0: Debug + Resource + for<'b> Hrtb<'b>;
-shredh::zoo_case!(c896, 896, 'a, ((Read<'a, D0, DefaultProvider>, ), Z896_0<'a, D2>, ));
-shredh::zoo_case!(c904, 904, 'a, (Option<ReadExpect<'a, N1>>, (), ));
-shredh::zoo_case!(c912, 912, 'a, ((), Write<'a, D2, DefaultProvider>, (), (), (), ));
-shredh::zoo_case!(c920, 920, 'a, ((), (), (), Option<Write<'a, N3, PanicHandler>>, (), (), ));
-shredh::zoo_case!(c928, 928, 'a, ((), (), (), (), Write<'a, N3, PanicHandler>, (), (), ));
-shredh::zoo_case!(c936, 936, 'a, ((), (), (), (), Write<'a, D1, DefaultProvider>, (), (), (), ));
-shredh::zoo_case!(c944, 944, 'a, ((), (), (), Read<'a, D3, DefaultProvider>, (), (), (), (), (), (), ));
-shredh::zoo_case!(c952, 952, 'a, (Write<'a, N3, PanicHandler>, (), (), (), (), (), (), (), (), (), (), (), (), ));
-shredh::zoo_case!(c960, 960, 'a, ((), (), (), (), (), (), (), (), Write<'a, D1, Hc<D1>>, (), (), (), (), ));
-shredh::zoo_case!(c968, 968, 'a, ((), (), Write<'a, D2, DefaultProvider>, (), (), (), (), (), (), (), (), (), (), (), (), ));
-shredh::zoo_case!(c976, 976, 'a, ((), (), (), (), (), (), (), (), (), (), Write<'a, D1, DefaultProvider>, (), (), (), (), ));
-shredh::zoo_case!(c984, 984, 'a, ((), (), Read<'a, D3>, (), (), (), (), (), (), (), (), (), (), (), (), (), (), (), (), (), (), ));
-shredh::zoo_case!(c992, 992, 'a, ((), (), (), (), (), (), (), (), (), (), Write<'a, N3, PanicHandler>, (), (), (), (), (), (), (), (), (), (), ));
-shredh::zoo_case!(c1000, 1000, 'a, ((), (), (), (), (), (), (), (), (), (), (), (), (), (), (), (), (), (), Read<'a, D1, Hc<D1>>, (), (), ));
-shredh::zoo_case!(c1008, 1008, 'a, ((), (), (), (), Write<'a, D2, Hc<D2>>, (), (), (), (), (), (), (), (), (), (), (), (), (), (), (), (), (), (), (), (), (), ));
-shredh::zoo_case!(c1016, 1016, 'a, ((), (), (), (), (), (), (), (), (), (), (), (), Read<'a, D3, DefaultProvider>, (), (), (), (), (), (), (), (), (), (), (), (), (), ));
-shredh::zoo_case!(c1024, 1024, 'a, ((), (), (), (), (), (), (), (), (), (), (), (), (), (), (), (), (), (), (), (), Option<ReadExpect<'a, N2>>, (), (), (), (), (), ));
-shredh::zoo_case!(c1032, 1032, 'a, ((), Read<'a, N1, PanicHandler>, ));
-shredh::zoo_case!(c1040, 1040, 'a, ((), (), (), (), (), Read<'a, N3, PanicHandler>, (), (), ));
-shredh::zoo_case!(c1048, 1048, 'a, ((), (), (), (), (), (), (), (), (), PhantomData<str>, (), (), (), (), (), (), (), (), (), (), (), ));
-shredh::zoo_case!(c1056, 1056, 'a, ((), (), (), (), (), (), (), PhantomData<dyn Send>, (), (), (), (), (), (), (), ));
-shredh::zoo_case!(c1064, 1064, 'a, ((), (), (), (), (), (), (), (), (), (), (), (), (), Read<'a, D2, DefaultProvider>, (), ));
-shredh::zoo_case!(c1072, 1072, 'a, ((), (), WriteExpect<'a, D0>, (), (), (), (), ));
-shredh::zoo_case!(c1080, 1080, 'a, ((), (), (), (), Write<'a, D0, Hc<D0>>, (), (), (), (), (), ));
-shredh::zoo_case!(c1088, 1088, 'a, ((), ReadExpect<'a, D0>, (), (), (), (), (), (), ));
-shredh::zoo_case!(c1096, 1096, 'a, ((), (), (), (), (), (), (), (), (), (), (), (), (), (), (), Read<'a, N0, PanicHandler>, (), (), (), (), (), (), (), (), (), (), ));
-shredh::zoo_case!(c1104, 1104, 'a, ((), PhantomData<[u32]>, (), ));
-shredh::zoo_case!(c1112, 1112, 'a, (Option<Read<'a, D3, PanicHandler>>, (), (), (), (), (), (), (), (), (), ));
-shredh::zoo_case!(c1120, 1120, 'a, ((), (), (), (), (), (), (), (), (), (), (), (), (), Read<'a, D1, DefaultProvider>, (), (), (), (), (), (), (), (), (), (), (), (), ));
-shredh::zoo_case!(c1128, 1128, 'a, ((), (), (), (), (), (), (), (), (), (), Read<'a, D1, DefaultProvider>, (), (), (), (), ));
-shredh::zoo_case!(c1136, 1136, 'a, (Read<'a, D0, Hc<D0>>, (), (), (), (), (), (), (), (), (), (), (), (), (), (), (), (), (), (), (), (), (), (), (), (), (), ));
-shredh::zoo_case!(c1144, 1144, 'a, (PhantomData<dyn Send>, (), (), (), (), (), (), (), (), (), (), (), (), (), (), (), (), (), (), (), (), ));
-shredh::zoo_case!(c1152, 1152, 'a, ((), (), (), (), (), (), (), (), (), (), (), (), (), (), (), WriteExpect<'a, D2>, (), (), (), (), (), (), (), (), (), (), ));
-shredh::zoo_case!(c1160, 1160, 'a, ((), (), (), (), (), (), (), PhantomData<(Write<'a, D1>,)>, (), (), (), (), (), (), (), (), (), (), (), (), (), ));
-shredh::zoo_case!(c1168, 1168, 'a, ((), (), (), (), (), (), (), (), (), (), (), (), (), (), (), (), (), (), (), (), Option<Read<'a, N1>>, ));
-shredh::zoo_case!(c1176, 1176, 'a, ((), (), (), (), (), (), (), (), (), (), (), (), (), (), (), (), (), (), (), Write<'a, D2, DefaultProvider>, (), ));
-shredh::zoo_case!(c1184, 1184, 'a, (PhantomData<fn() -> N2>, (), (), (), (), (), (), (), (), (), (), (), (), ));
-shredh::zoo_case!(c1192, 1192, 'a, ((), (), Option<Read<'a, D0, PanicHandler>>, (), (), (), (), (), (), (), (), (), (), ));
-shredh::zoo_case!(c1200, 1200, 'a, ((), (), (), (), (), (), (), (), (), (), (), (), (), (), (), (), (), (), Read<'a, D0, DefaultProvider>, (), (), (), (), (), (), (), ));
-shredh::zoo_case!(c1208, 1208, 'a, ((), (), (), (), (), (), (), (), (), (), (), (), (), (), (), (), (), (), Write<'a, D1, Hc<D1>>, (), (), ));
-shredh::zoo_case!(c1216, 1216, 'a, ((), (), (), (), (), (), (), (), (), (), (), (), Write<'a, D2, Hc<D2>>, (), (), (), (), (), (), (), (), ));
-shredh::zoo_case!(c1224, 1224, 'a, ((), Write<'a, D1, Hc<D1>>, ));
-shredh::zoo_case!(c1232, 1232, 'a, ((), (), (), (), ReadExpect<'a, D0>, (), (), (), ));
-shredh::zoo_case!(c1240, 1240, 'a, ((), (), (), (), (), (), (), (), Read<'a, D1, DefaultProvider>, (), (), (), (), ));
-shredh::zoo_case!(c1248, 1248, 'a, ((), (), Read<'a, D3, Hc<D3>>, (), (), (), (), (), (), (), ));
-shredh::zoo_case!(c1256, 1256, 'a, ((), (), (), Read<'a, D1, Hc<D1>>, (), (), ));
-shredh::zoo_case!(c1264, 1264, 'a, ((), (), PhantomData<str>, (), (), (), (), (), (), (), (), (), (), (), (), (), (), (), (), (), (), ));
-shredh::zoo_case!(c1272, 1272, 'a, ((), (), Read<'a, D0, DefaultProvider>, ));
-shredh::zoo_case!(c1280, 1280, 'a, (ReadExpect<'a, N0>, (), (), (), (), (), (), (), (), (), (), (), (), ));
-shredh::zoo_case!(c1288, 1288, 'a, (Option<Read<'a, N1>>, (), (), (), (), (), (), (), (), (), (), (), (), (), (), (), (), (), (), (), (), ));
-shredh::zoo_case!(c1296, 1296, 'a, ((), (), Option<ReadExpect<'a, D3>>, (), (), (), (), (), ));
-shredh::zoo_case!(c1304, 1304, 'a, ((), (), (), (), (), (), (), (), (), (), (), (), (), (), (), (), (), (), (), (), PhantomData<D0>, ));
-shredh::zoo_case!(c1312, 1312, 'a, ((), (), (), (), (), (), (), (), (), (), (), (), Read<'a, D0, Hc<D0>>, (), (), (), (), (), (), (), (), (), (), (), (), (), ));
-shredh::zoo_case!(c1320, 1320, 'a, ((), (), (), (), (), (), (), (), (), Read<'a, D1, DefaultProvider>, (), (), (), ));
-shredh::zoo_case!(c1328, 1328, 'a, ((), (), (), (), (), (), (), (), (), Read<'a, N0, PanicHandler>, (), (), (), (), (), (), (), (), (), (), (), (), (), (), (), (), ));
-shredh::zoo_case!(c1336, 1336, 'a, ((), (), PhantomData<u8>, (), (), (), (), (), (), (), (), (), (), (), (), ));
-shredh::zoo_case!(c1344, 1344, 'a, ((), (), (), (), (), (), (), (), Read<'a, N1, PanicHandler>, (), (), (), (), (), (), ));
-shredh::zoo_case!(c1352, 1352, 'a, ((), ReadExpect<'a, N2>, (), (), (), (), (), (), (), (), (), (), (), (), (), (), (), (), (), (), (), ));
-shredh::zoo_case!(c1360, 1360, 'a, ((), (), (), (), (), (), (), (), (), WriteExpect<'a, D0>, ));
-shredh::zoo_case!(c1368, 1368, 'a, ((), (), (), (), (), (), (), (), Option<Write<'a, N3>>, (), ));
-shredh::zoo_case!(c1376, 1376, 'a, ((), (), (), (), (), PhantomData<fn() -> N2>, (), (), (), (), (), (), (), (), (), ));
-shredh::zoo_case!(c1384, 1384, 'a, (Write<'a, D3, Hc<D3>>, (), ));
-shredh::zoo_case!(c1392, 1392, 'a, ((), (), (), (), (), (), (), (), (), (), (), (), (), (), (), (), (), (), (), Read<'a, D1, Hc<D1>>, (), ));
-shredh::zoo_case!(c1400, 1400, 'a, ((), (), (), (), (), (), (), (), (), Read<'a, D3, Hc<D3>>, (), (), (), (), (), (), (), (), (), (), (), (), (), (), (), (), ));
-shredh::zoo_case!(c1408, 1408, 'a, (Read<'a, D3, Hc<D0>>, Write<'a, D0, Hc<D3>>, ));
-shredh::zoo_case!(c1416, 1416, 'a, (Read<'a, D1, Hc<D2>>, Write<'a, D2, Hc<D4>>, Read<'a, D4, Hc<D0>>, Write<'a, D0, Hc<D1>>, ));
-shredh::zoo_case!(c1424, 1424, 'a, (Write<'a, D5, Hc<D4>>, Read<'a, D4, Hc<D0>>, Write<'a, D0, Hc<D3>>, Read<'a, D3, Hc<D2>>, Write<'a, D2, Hc<D1>>, Read<'a, D1, Hc<D5>>, ));
-shredh::zoo_case!(c1432, 1432, 'a, (Write<'a, D21, Hc<D18>>, Read<'a, D18, Hc<D5>>, Write<'a, D5, Hc<D19>>, Read<'a, D19, Hc<D7>>, Write<'a, D7, Hc<D22>>, Read<'a, D22, Hc<D17>>, Write<'a, D17, Hc<D12>>, Read<'a, D12, Hc<D21>>, ));
-shredh::zoo_case!(c1440, 1440, 'a, (Read<'a, D14, Hc<D16>>, Write<'a, D16, Hc<D11>>, Read<'a, D11, Hc<D17>>, Write<'a, D17, Hc<D7>>, Read<'a, D7, Hc<D24>>, Write<'a, D24, Hc<D5>>, Read<'a, D5, Hc<D25>>, Write<'a, D25, Hc<D0>>, Read<'a, D0, Hc<D12>>, Write<'a, D12, Hc<D14>>, ));
-shredh::zoo_case!(c1448, 1448, 'a, (Read<'a, D25, Hc<D22>>, Write<'a, D22, Hc<D20>>, Read<'a, D20, Hc<D23>>, Write<'a, D23, Hc<D3>>, Read<'a, D3, Hc<D8>>, Write<'a, D8, Hc<D15>>, Read<'a, D15, Hc<D0>>, Write<'a, D0, Hc<D7>>, Read<'a, D7, Hc<D24>>, Write<'a, D24, Hc<D9>>, Read<'a, D9, Hc<D2>>, Write<'a, D2, Hc<D25>>, ));
-shredh::zoo_case!(c1456, 1456, 'a, (Write<'a, D21, Hc<D18>>, Read<'a, D18, Hc<D19>>, Write<'a, D19, Hc<D8>>, Read<'a, D8, Hc<D9>>, Write<'a, D9, Hc<D15>>, Read<'a, D15, Hc<D16>>, Write<'a, D16, Hc<D3>>, Read<'a, D3, Hc<D25>>, Write<'a, D25, Hc<D22>>, Read<'a, D22, Hc<D5>>, Write<'a, D5, Hc<D0>>, Read<'a, D0, Hc<D7>>, Write<'a, D7, Hc<D23>>, Read<'a, D23, Hc<D21>>, ));
-shredh::zoo_case!(c1464, 1464, 'a, (Write<'a, D15, Hc<D2>>, Read<'a, D2, Hc<D18>>, Write<'a, D18, Hc<D4>>, Read<'a, D4, Hc<D22>>, Write<'a, D22, Hc<D0>>, Read<'a, D0, Hc<D25>>, Write<'a, D25, Hc<D8>>, Read<'a, D8, Hc<D1>>, Write<'a, D1, Hc<D3>>, Read<'a, D3, Hc<D23>>, Write<'a, D23, Hc<D16>>, Read<'a, D16, Hc<D7>>, Write<'a, D7, Hc<D9>>, Read<'a, D9, Hc<D14>>, Write<'a, D14, Hc<D21>>, Read<'a, D21, Hc<D15>>, ));
-shredh::zoo_case!(c1472, 1472, 'a, (Read<'a, D10, Hc<D5>>, Write<'a, D5, Hc<D25>>, Read<'a, D25, Hc<D7>>, Write<'a, D7, Hc<D11>>, Read<'a, D11, Hc<D18>>, Write<'a, D18, Hc<D19>>, Read<'a, D19, Hc<D4>>, Write<'a, D4, Hc<D8>>, Read<'a, D8, Hc<D1>>, Write<'a, D1, Hc<D9>>, Read<'a, D9, Hc<D13>>, Write<'a, D13, Hc<D12>>, Read<'a, D12, Hc<D2>>, Write<'a, D2, Hc<D23>>, Read<'a, D23, Hc<D16>>, Write<'a, D16, Hc<D21>>, Read<'a, D21, Hc<D24>>, Write<'a, D24, Hc<D10>>, ));
-shredh::zoo_case!(c1480, 1480, 'a, (Write<'a, D15, Hc<D24>>, Read<'a, D24, Hc<D18>>, Write<'a, D18, Hc<D14>>, Read<'a, D14, Hc<D12>>, Write<'a, D12, Hc<D19>>, Read<'a, D19, Hc<D1>>, Write<'a, D1, Hc<D2>>, Read<'a, D2, Hc<D16>>, Write<'a, D16, Hc<D25>>, Read<'a, D25, Hc<D3>>, Write<'a, D3, Hc<D5>>, Read<'a, D5, Hc<D21>>, Write<'a, D21, Hc<D10>>, Read<'a, D10, Hc<D7>>, Write<'a, D7, Hc<D13>>, Read<'a, D13, Hc<D6>>, Write<'a, D6, Hc<D23>>, Read<'a, D23, Hc<D22>>, Write<'a, D22, Hc<D17>>, Read<'a, D17, Hc<D15>>, ));
-shredh::zoo_case!(c1488, 1488, 'a, (Read<'a, D10, Hc<D24>>, Write<'a, D24, Hc<D3>>, Read<'a, D3, Hc<D25>>, Write<'a, D25, Hc<D1>>, Read<'a, D1, Hc<D11>>, Write<'a, D11, Hc<D14>>, Read<'a, D14, Hc<D6>>, Write<'a, D6, Hc<D18>>, Read<'a, D18, Hc<D20>>, Write<'a, D20, Hc<D16>>, Read<'a, D16, Hc<D5>>, Write<'a, D5, Hc<D22>>, Read<'a, D22, Hc<D0>>, Write<'a, D0, Hc<D8>>, Read<'a, D8, Hc<D13>>, Write<'a, D13, Hc<D21>>, Read<'a, D21, Hc<D15>>, Write<'a, D15, Hc<D2>>, Read<'a, D2, Hc<D17>>, Write<'a, D17, Hc<D19>>, Read<'a, D19, Hc<D7>>, Write<'a, D7, Hc<D10>>, ));
-shredh::zoo_case!(c1496, 1496, 'a, (Read<'a, D23, Hc<D20>>, Write<'a, D20, Hc<D5>>, Read<'a, D5, Hc<D0>>, Write<'a, D0, Hc<D24>>, Read<'a, D24, Hc<D3>>, Write<'a, D3, Hc<D17>>, Read<'a, D17, Hc<D13>>, Write<'a, D13, Hc<D18>>, Read<'a, D18, Hc<D2>>, Write<'a, D2, Hc<D10>>, Read<'a, D10, Hc<D21>>, Write<'a, D21, Hc<D19>>, Read<'a, D19, Hc<D6>>, Write<'a, D6, Hc<D11>>, Read<'a, D11, Hc<D7>>, Write<'a, D7, Hc<D22>>, Read<'a, D22, Hc<D16>>, Write<'a, D16, Hc<D15>>, Read<'a, D15, Hc<D9>>, Write<'a, D9, Hc<D4>>, Read<'a, D4, Hc<D1>>, Write<'a, D1, Hc<D8>>, Read<'a, D8, Hc<D14>>, Write<'a, D14, Hc<D23>>, ));
-shredh::zoo_case!(c1504, 1504, 'a, (Write<'a, D2, Hc<D11>>, Read<'a, D11, Hc<D6>>, Write<'a, D6, Hc<D12>>, Read<'a, D12, Hc<D20>>, Write<'a, D20, Hc<D8>>, Read<'a, D8, Hc<D3>>, Write<'a, D3, Hc<D25>>, Read<'a, D25, Hc<D16>>, Write<'a, D16, Hc<D5>>, Read<'a, D5, Hc<D24>>, Write<'a, D24, Hc<D10>>, Read<'a, D10, Hc<D9>>, Write<'a, D9, Hc<D1>>, Read<'a, D1, Hc<D7>>, Write<'a, D7, Hc<D17>>, Read<'a, D17, Hc<D18>>, Write<'a, D18, Hc<D0>>, Read<'a, D0, Hc<D23>>, Write<'a, D23, Hc<D22>>, Read<'a, D22, Hc<D4>>, Write<'a, D4, Hc<D13>>, Read<'a, D13, Hc<D15>>, Write<'a, D15, Hc<D14>>, Read<'a, D14, Hc<D21>>, Write<'a, D21, Hc<D19>>, Read<'a, D19, Hc<D2>>, ));
-#[derive(SystemData)] pub struct Z1512_0<'a, U0: SystemData<'a>> { pub f0: Read<'a, D3>, pub f1: U0, pub f2: Read<'a, D3>, }
-shredh::zoo_case!(c1512, 1512, 'a, Z1512_0<'a, Option<Read<'a, N0>>>);
-#[derive(SystemData)] pub struct Z1520_0<'a, U0: SystemData<'a>> { pub f0: Read<'a, D0, DefaultProvider>, pub f1: Write<'a, D3>, pub f2: U0, }
-shredh::zoo_case!(c1520, 1520, 'a, Z1520_0<'a, (Read<'a, D2>, Write<'a, D4>, )>);
-#[derive(SystemData)] pub struct Z1528_1<'a>(Option<Write<'a, N0, PanicHandler>>, (Read<'a, D3, DefaultProvider>, ));
-#[derive(SystemData)] pub struct Z1528_0<'a, U0: SystemData<'a>>(pub U0, pub Write<'a, D4>, pub Read<'a, D1, DefaultProvider>);
-shredh::zoo_case!(c1528, 1528, 'a, Z1528_0<'a, Z1528_1<'a>>);
-#[derive(SystemData)] pub struct Z1536_0<'a, U0: SystemData<'a>>(Read<'a, D3, DefaultProvider>, Write<'a, D1, DefaultProvider>, U0);
-shredh::zoo_case!(c1536, 1536, 'a, Z1536_0<'a, Option<Read<'a, N2, PanicHandler>>>);
-shredh::zoo_case!(c1544, 1544, 'a, (PhantomData<dyn Send>, Read<'a, D14>, Write<'a, D25>, ReadExpect<'a, N18>, Write<'a, N22, PanicHandler>, Option<Read<'a, N9, PanicHandler>>, Option<WriteExpect<'a, D1>>, Read<'a, D13, Hc<D7>>, Write<'a, D7, Hc<D12>>, (), PhantomData<fn() -> N2>, Read<'a, D4, DefaultProvider>, Write<'a, D8, DefaultProvider>, ReadExpect<'a, N16>, WriteExpect<'a, D23>, Option<Read<'a, D19, PanicHandler>>, Option<Write<'a, N20, PanicHandler>>, Read<'a, D24, Hc<D2>>, Write<'a, D2, Hc<D3>>, (), PhantomData<dyn Send>, Read<'a, D10, DefaultProvider>, Write<'a, D0>, Read<'a, N11, PanicHandler>, ));
-shredh::zoo_case!(c1552, 1552, 'a, (Read<'a, D1, Hc<D1>>, ));
-#[derive(SystemData)] pub struct Z1560_0<'a, U0: SystemData<'a>, U1, U2, T0: Resource + ZRes, T1: Resource + ZRes, T2: Resource>(U0, U1, U2, Write<'a, T0, PanicHandler>, Option<Read<'a, T1, PanicHandler>>, Option<Write<'a, T2>>, Read<'a, D12, Hc<D4>>, Write<'a, D4, Hc<D2>>, (), PhantomData<dyn Send>, Read<'a, D25>, Write<'a, D6, DefaultProvider>, Read<'a, N10, PanicHandler>, WriteExpect<'a, D17>, Option<Read<'a, N8, PanicHandler>>) where U1: SystemData<'a>, U2: SystemData<'a>;
-shredh::zoo_case!(c1560, 1560, 'a, Z1560_0<'a, Read<'a, D1>, Write<'a, D7, DefaultProvider>, Read<'a, D24, PanicHandler>, D9, N15, N22>);
-#[derive(SystemData)] pub struct Z1568_0<'a, T0: Resource + ZRes + Default, T1: Resource, U0, U1, U2> where U0: SystemData<'a>, U1: SystemData<'a>, U2: SystemData<'a> { pub f0: Read<'a, T0>, pub f1: Write<'a, D5, DefaultProvider>, pub f2: ReadExpect<'a, T1>, pub f3: U0, pub f4: U1, pub f5: U2, pub f6: Read<'a, D3, Hc<D1>>, }
-shredh::zoo_case!(c1568, 1568, 'a, Z1568_0<'a, D1, N6, WriteExpect<'a, D4>, Option<Read<'a, D2>>, Option<WriteExpect<'a, N0>>>);
-#[derive(SystemData)] pub struct Z1576_0<'a> { f0: Read<'a, D1, PanicHandler>, f1: Write<'a, N2, PanicHandler>, f2: Option<Read<'a, D7, PanicHandler>>, f3: Option<Write<'a, N6>>, f4: Read<'a, D4, Hc<D3>>, f5: Write<'a, D3, Hc<D5>>, f6: (), }
-shredh::zoo_case!(c1576, 1576, 'a, Z1576_0<'a>);
-#[derive(SystemData)] pub struct Z1584_0<'a, 'x>(Option<Write<'a, D25>>, Read<'a, D9, Hc<D14>>, Write<'a, D14, Hc<D5>>, (), PhantomData<&'x i64>, Read<'a, D6, DefaultProvider>, Write<'a, D21, DefaultProvider>, ReadExpect<'a, N1>, WriteExpect<'a, N22>, Option<Read<'a, N13>>, Option<WriteExpect<'a, N19>>, Read<'a, D20, Hc<D18>>, Write<'a, D18, Hc<D7>>, (), PhantomData<(Write<'a, D1>,)>, Read<'a, D12>, Write<'a, D23>, Read<'a, N0, PanicHandler>, Write<'a, N11, PanicHandler>, Option<Read<'a, D8>>, Option<WriteExpect<'a, N2>>, Read<'a, D3, Hc<D17>>, Write<'a, D17, Hc<D25>>);
-shredh::zoo_case!(c1584, 1584, 'a, Z1584_0<'a, 'a>);
-shredh::zoo_case!(c1592, 1592, 'a, (PhantomData<str>, Read<'a, D13, DefaultProvider>, Write<'a, D12, DefaultProvider>, ReadExpect<'a, D21>, Write<'a, D9, PanicHandler>, Option<Read<'a, N24>>, Option<Write<'a, N7, PanicHandler>>, Read<'a, D8, Hc<D0>>, Write<'a, D0, Hc<D25>>, (), PhantomData<(Write<'a, D1>,)>, Read<'a, D14, DefaultProvider>, Write<'a, D15, DefaultProvider>, Read<'a, D6, PanicHandler>, WriteExpect<'a, D1>, Option<Read<'a, N18>>, Option<WriteExpect<'a, D20>>, Read<'a, D17, Hc<D3>>, Write<'a, D3, Hc<D10>>, (), PhantomData<dyn Send>, Read<'a, D22, DefaultProvider>, Write<'a, D23>, ReadExpect<'a, N19>, Write<'a, N16, PanicHandler>, ));
-#[derive(SystemData)] pub struct Z1600_1<'a, U0> where U0: SystemData<'a> { pub f0: Read<'a, D4, PanicHandler>, pub f1: U0, }
-#[derive(SystemData)] pub struct Z1600_2<'a, T0, T1, T2> where T0: Debug + Resource, T1: Debug + Resource + for<'b> Hrtb<'b> + Default, T2: Debug + Resource + Default { f0: Write<'a, T0>, f1: Write<'a, T1, DefaultProvider>, f2: Read<'a, T2, DefaultProvider>, f3: Read<'a, D0, Hc<D3>>, }
-#[derive(SystemData)] pub struct Z1600_0<'a, T0: Debug + Resource + for<'b> Hrtb<'b>>(pub Z1600_1<'a, Write<'a, D0>>, pub (Read<'a, D0, PanicHandler>, ), pub Write<'a, T0, DefaultProvider>, pub Z1600_2<'a, D0, D3, D3>);
-shredh::zoo_case!(c1600, 1600, 'a, Z1600_0<'a, D4>);
-#[derive(SystemData)] pub struct Z1608_1<'a, T0> where T0: Resource + ZRes { pub f0: Read<'a, T0, PanicHandler>, }
-#[derive(SystemData)] pub struct Z1608_0<'a> { f0: Z1608_1<'a, N3>, f1: ((), ), f2: Option<ReadExpect<'a, N2>>, f3: (), }
-shredh::zoo_case!(c1608, 1608, 'a, Z1608_0<'a>);
-#[derive(SystemData)] pub struct Z1616_2<'a>(PhantomData<str>, Option<Write<'a, D2, PanicHandler>>);
-#[derive(SystemData)] pub struct Z1616_3<'a, T0: Resource + ZRes, T1>(ReadExpect<'a, T0>, Read<'a, T1, DefaultProvider>) where T1: Resource;
-#[derive(SystemData)] pub struct Z1616_1<'a, 'x, T0> where T0: Debug + Resource { f0: Z1616_2<'a>, f1: Z1616_3<'a, D2, D3>, f2: PhantomData<&'x i64>, f3: Read<'a, T0, DefaultProvider>, }
-#[derive(SystemData)] pub struct Z1616_0<'a> { f0: Z1616_1<'a, 'a, D3>, }
-shredh::zoo_case!(c1616, 1616, 'a, Z1616_0<'a>);
-shredh::zoo_case!(c1624, 1624, 'a, (Read<'a, D2>, (Read<'a, D3, Hc<D2>>, ), ));
-#[derive(SystemData)] pub struct Z1632_1<'a, T0: Resource + ZRes> { pub f0: Option<Read<'a, D3>>, pub f1: Read<'a, T0, Hc<D3>>, }
-#[derive(SystemData)] pub struct Z1632_2<'a> { pub f0: Read<'a, D0, Hc<D3>>, pub f1: Read<'a, D3, Hc<D0>>, }
-#[derive(SystemData)] pub struct Z1632_0<'a, 'x>(pub PhantomData<&'x i64>, pub (Z1632_1<'a, D0>, Z1632_2<'a>, Option<ReadExpect<'a, D3>>, ), pub Option<WriteExpect<'a, D3>>, pub Option<Read<'a, D3>>);
-shredh::zoo_case!(c1632, 1632, 'a, Z1632_0<'a, 'static>);
-#[derive(SystemData)] pub struct Z1640_0<'a> { pub f0: (), pub f1: (((), Read<'a, D2, Hc<D0>>, ), ), }
-shredh::zoo_case!(c1640, 1640, 'a, Z1640_0<'a>);
-#[derive(SystemData)] pub struct Z1648_0<'a>(PhantomData<&'a u8>, Option<ReadExpect<'a, D0>>);
-shredh::zoo_case!(c1648, 1648, 'a, (Option<WriteExpect<'a, D0>>, ((WriteExpect<'a, D0>, PhantomData<D0>, Option<Read<'a, D1, PanicHandler>>, ), (Read<'a, D1, DefaultProvider>, (), PhantomData<u8>, ), ), Z1648_0<'a>, ((Option<WriteExpect<'a, D0>>, (), ), ), ));
-#[derive(SystemData)] pub struct Z1656_1<'a> { f0: (Write<'a, D0, Hc<D1>>, Read<'a, D0>, PhantomData<u8>, PhantomData<dyn Send>, ), f1: (Write<'a, D2, Hc<D0>>, ReadExpect<'a, N3>, Write<'a, N3, PanicHandler>, ), }
-#[derive(SystemData)] pub struct Z1656_0<'a> { pub f0: Option<Write<'a, D0>>, pub f1: Write<'a, D1, Hc<D0>>, pub f2: Option<WriteExpect<'a, N3>>, pub f3: Z1656_1<'a>, }
-shredh::zoo_case!(c1656, 1656, 'a, Z1656_0<'a>);
-#[derive(SystemData)] pub struct Z1664_2<'a> { f0: Read<'a, D3, DefaultProvider>, f1: (), }
-#[derive(SystemData)] pub struct Z1664_1<'a>(Option<ReadExpect<'a, D2>>, Z1664_2<'a>, Read<'a, D0, DefaultProvider>, ((), Read<'a, D3, DefaultProvider>, ));
-#[derive(SystemData)] pub struct Z1664_0<'a> { pub f0: Z1664_1<'a>, }
-shredh::zoo_case!(c1664, 1664, 'a, Z1664_0<'a>);
-#[derive(SystemData)] pub struct Z1672_1<'a, U0: SystemData<'a>>(U0, Read<'a, D2, PanicHandler>, PhantomData<u8>);
-#[derive(SystemData)] pub struct Z1672_2<'a>(Read<'a, D2, Hc<D3>>, Write<'a, D2, Hc<D3>>);
-#[derive(SystemData)] pub struct Z1672_0<'a>(Z1672_1<'a, Write<'a, D3, PanicHandler>>, Z1672_2<'a>, ());
-shredh::zoo_case!(c1672, 1672, 'a, (Write<'a, D2, DefaultProvider>, Z1672_0<'a>, ));
-#[derive(SystemData)] pub struct Z1680_1<'a, T0> where T0: Debug + Resource + for<'b> Hrtb<'b> { f0: Write<'a, T0, DefaultProvider>, }
-#[derive(SystemData)] pub struct Z1680_0<'a> { pub f0: Z1680_1<'a, D0>, }
-shredh::zoo_case!(c1680, 1680, 'a, Z1680_0<'a>);
-#[derive(SystemData)] pub struct Z1688_1<'a, U0: SystemData<'a>> { pub f0: U0, pub f1: ReadExpect<'a, D3>, }
-#[derive(SystemData)] pub struct Z1688_0<'a> { pub f0: Z1688_1<'a, Write<'a, D3>>, }
-shredh::zoo_case!(c1688, 1688, 'a, (Z1688_0<'a>, Read<'a, D3, DefaultProvider>, Option<Read<'a, D3, PanicHandler>>, Read<'a, D3, DefaultProvider>, ));
-#[derive(SystemData)] pub struct Z1696_1<'a, T0: Debug + Resource, T1> where T1: Debug + Resource + for<'b> Hrtb<'b> { pub f0: WriteExpect<'a, T0>, pub f1: Read<'a, T1, DefaultProvider>, }
-#[derive(SystemData)] pub struct Z1696_2<'a> { pub f0: Write<'a, D4, Hc<D2>>, }
-#[derive(SystemData)] pub struct Z1696_3<'a, T0: Debug + Resource>(Option<Write<'a, T0>>, (), (), Write<'a, D1, DefaultProvider>);
-#[derive(SystemData)] pub struct Z1696_4<'a>((Read<'a, D2>, Option<ReadExpect<'a, D3>>, Read<'a, D1, DefaultProvider>, Option<WriteExpect<'a, D1>>, ));
-#[derive(SystemData)] pub struct Z1696_5<'a> { f0: PhantomData<&'a u8>, f1: Option<WriteExpect<'a, D1>>, f2: Read<'a, D1, Hc<D3>>, f3: Read<'a, D2, PanicHandler>, }
-#[derive(SystemData)] pub struct Z1696_0<'a, U0, U1: SystemData<'a>, U2> where U0: SystemData<'a>, U2: SystemData<'a> { pub f0: (Z1696_1<'a, D2, D2>, Z1696_2<'a>, Write<'a, D2, Hc<D1>>, Z1696_3<'a, D3>, ), pub f1: U0, pub f2: U1, pub f3: U2, }
-shredh::zoo_case!(c1696, 1696, 'a, Z1696_0<'a, WriteExpect<'a, D4>, Z1696_4<'a>, (Z1696_5<'a>, Option<WriteExpect<'a, D1>>, Write<'a, D4, PanicHandler>, (Write<'a, D1>, Read<'a, D4, DefaultProvider>, ), )>);
-#[derive(SystemData)] pub struct Z1704_1<'a, T0, T1>(Option<Write<'a, T0>>, Option<WriteExpect<'a, D1>>, Write<'a, T1, Hc<D3>>) where T0: Resource + ZRes, T1: Debug + Resource + for<'b> Hrtb<'b>;
-#[derive(SystemData)] pub struct Z1704_2<'a, T0, T1, T2>(Option<Read<'a, T0>>, WriteExpect<'a, D3>, Read<'a, T1>, Write<'a, T2, Hc<D0>>) where T0: Debug + Resource + for<'b> Hrtb<'b>, T1: Resource + ZRes + Default, T2: Resource;
-#[derive(SystemData)] pub struct Z1704_3<'a> { f0: Option<ReadExpect<'a, D1>>, }
-#[derive(SystemData)] pub struct Z1704_4<'a>(Read<'a, D3, Hc<D2>>, WriteExpect<'a, D0>);
-#[derive(SystemData)] pub struct Z1704_0<'a, U0: SystemData<'a>, U1: SystemData<'a>> { f0: Option<Write<'a, D0>>, f1: U0, f2: U1, f3: Read<'a, D2>, }
-shredh::zoo_case!(c1704, 1704, 'a, Z1704_0<'a, (Z1704_1<'a, D2, D1>, Z1704_2<'a, D3, D1, D2>, ), (Z1704_3<'a>, Z1704_4<'a>, Read<'a, D2>, (Option<Read<'a, D0, PanicHandler>>, ), )>);
-#[derive(SystemData)] pub struct Z1712_1<'a> { pub f0: Read<'a, D3, PanicHandler>, pub f1: ReadExpect<'a, D0>, pub f2: Read<'a, D3, DefaultProvider>, }
-#[derive(SystemData)] pub struct Z1712_2<'a, T0: Debug + Resource, T1: Resource + ZRes, T2: Resource>(pub Write<'a, D0, DefaultProvider>, pub Option<Write<'a, T0>>, pub Option<ReadExpect<'a, T1>>, pub Option<Read<'a, T2, PanicHandler>>);
-#[derive(SystemData)] pub struct Z1712_3<'a> { pub f0: Option<Write<'a, D0>>, pub f1: Write<'a, D0>, pub f2: Write<'a, D3, DefaultProvider>, pub f3: Option<Read<'a, D0, PanicHandler>>, }
-#[derive(SystemData)] pub struct Z1712_0<'a>(pub Z1712_1<'a>, pub Z1712_2<'a, D3, D3, D0>, pub (Write<'a, D3>, ReadExpect<'a, D0>, Read<'a, D3, PanicHandler>, ), pub Z1712_3<'a>);
-#[derive(SystemData)] pub struct Z1712_4<'a, U0, U1>(U0, (Write<'a, D3>, Option<Write<'a, D0>>, Read<'a, D3, DefaultProvider>, ), U1) where U0: SystemData<'a>, U1: SystemData<'a>;
-shredh::zoo_case!(c1712, 1712, 'a, (ReadExpect<'a, D0>, Z1712_0<'a>, Z1712_4<'a, (Option<Write<'a, D0, PanicHandler>>, (), Write<'a, D3>, Read<'a, D0, Hc<D3>>, ), Write<'a, D0, DefaultProvider>>, ));
-#[derive(SystemData)] pub struct Z1720_1<'a, T0: Debug + Resource, T1: Resource + ZRes + Default, T2: Debug + Resource + Default> { f0: Option<Read<'a, T0, PanicHandler>>, f1: Write<'a, T1, DefaultProvider>, f2: Read<'a, T2, DefaultProvider>, }
-#[derive(SystemData)] pub struct Z1720_3<'a>(Read<'a, D4, Hc<D1>>, PhantomData<fn() -> N2>, PhantomData<(Write<'a, D1>,)>, Read<'a, D2>);
-#[derive(SystemData)] pub struct Z1720_2<'a> { pub f0: (PhantomData<D0>, Write<'a, D4>, PhantomData<dyn Send>, ), pub f1: Write<'a, D3>, pub f2: Z1720_3<'a>, pub f3: Option<Read<'a, D1>>, }
-#[derive(SystemData)] pub struct Z1720_4<'a> { pub f0: Read<'a, D1, Hc<D4>>, pub f1: Option<Read<'a, D2, PanicHandler>>, }
-#[derive(SystemData)] pub struct Z1720_5<'a> { f0: PhantomData<&'a u8>, }
-#[derive(SystemData)] pub struct Z1720_0<'a, T0>(pub (Z1720_1<'a, D2, D3, D4>, ), pub Z1720_2<'a>, pub (Z1720_4<'a>, Z1720_5<'a>, ), pub Write<'a, T0, DefaultProvider>) where T0: Resource + Default;
-shredh::zoo_case!(c1720, 1720, 'a, Z1720_0<'a, D1>);
-#[derive(SystemData)] pub struct Z1728_2<'a, T0: Resource + ZRes + Default, T1: Debug + Resource + Default, T2: Debug + Resource + Default> { f0: Read<'a, T0, DefaultProvider>, f1: Write<'a, T1, DefaultProvider>, f2: Write<'a, T2>, f3: (), }
-#[derive(SystemData)] pub struct Z1728_1<'a> { f0: Read<'a, D3, DefaultProvider>, f1: ReadExpect<'a, D1>, f2: Z1728_2<'a, D3, D1, D1>, }
-#[derive(SystemData)] pub struct Z1728_0<'a, T0> where T0: Resource + ZRes { f0: Z1728_1<'a>, f1: PhantomData<dyn Send>, f2: Read<'a, T0, Hc<D2>>, }
-shredh::zoo_case!(c1728, 1728, 'a, Z1728_0<'a, D3>);
-#[derive(SystemData)] pub struct Z1736_2<'a> { pub f0: ReadExpect<'a, D4>, }
-#[derive(SystemData)] pub struct Z1736_1<'a> { f0: (Write<'a, D4>, ReadExpect<'a, N1>, ), f1: Read<'a, D4, DefaultProvider>, f2: Z1736_2<'a>, f3: (Option<Write<'a, D4>>, Read<'a, N2, PanicHandler>, Option<ReadExpect<'a, N1>>, ), }
-#[derive(SystemData)] pub struct Z1736_4<'a> { pub f0: Option<WriteExpect<'a, D4>>, }
-#[derive(SystemData)] pub struct Z1736_3<'a>(pub Z1736_4<'a>, pub Option<Read<'a, N2>>);
-#[derive(SystemData)] pub struct Z1736_0<'a, T0: Debug + Resource>(ReadExpect<'a, T0>, Z1736_1<'a>, Z1736_3<'a>);
-shredh::zoo_case!(c1736, 1736, 'a, Z1736_0<'a, N3>);
-#[derive(SystemData)] pub struct Z1744_1<'a> { f0: Option<Read<'a, D3>>, f1: Write<'a, D0>, f2: Option<Write<'a, D0, PanicHandler>>, }
-#[derive(SystemData)] pub struct Z1744_2<'a, U0> where U0: SystemData<'a> { pub f0: Read<'a, D0>, pub f1: U0, }
-#[derive(SystemData)] pub struct Z1744_0<'a>(pub Z1744_1<'a>, pub (Write<'a, D0, DefaultProvider>, Write<'a, D3, DefaultProvider>, ), pub Z1744_2<'a, Read<'a, D0, Hc<D3>>>);
-shredh::zoo_case!(c1744, 1744, 'a, Z1744_0<'a>);
-#[derive(SystemData)] pub struct Z1752_1<'a, U0, U1>(pub Read<'a, D2, Hc<D0>>, pub U0, pub U1) where U0: SystemData<'a>, U1: SystemData<'a>;
-#[derive(SystemData)] pub struct Z1752_2<'a, 'x, T0> where T0: Resource + ZRes { f0: Read<'a, T0, PanicHandler>, f1: PhantomData<&'x i64>, }
-#[derive(SystemData)] pub struct Z1752_0<'a>(pub Z1752_1<'a, Write<'a, D2>, PhantomData<&'a u8>>, pub (Read<'a, D0, DefaultProvider>, Option<Read<'a, D2, PanicHandler>>, Option<ReadExpect<'a, D2>>, Option<ReadExpect<'a, D2>>, ), pub Z1752_2<'a, 'a, D2>);
-#[derive(SystemData)] pub struct Z1752_3<'a>(Read<'a, D0>, Read<'a, D0, Hc<D2>>);
-#[derive(SystemData)] pub struct Z1752_4<'a, T0>(Read<'a, T0, Hc<D2>>) where T0: Debug + Resource;
-shredh::zoo_case!(c1752, 1752, 'a, (Z1752_0<'a>, ((), Z1752_3<'a>, Z1752_4<'a, D0>, ), (PhantomData<u8>, ), Read<'a, D2, DefaultProvider>, ));
-#[derive(SystemData)] pub struct Z1760_2<'a, U0: SystemData<'a>, U1: SystemData<'a>> { f0: U0, f1: U1, f2: Option<Read<'a, D1, PanicHandler>>, f3: Read<'a, D1>, }
-#[derive(SystemData)] pub struct Z1760_3<'a>(pub ReadExpect<'a, D1>, pub Option<Read<'a, D1, PanicHandler>>);
-#[derive(SystemData)] pub struct Z1760_1<'a, U0: SystemData<'a>>(Z1760_2<'a, Read<'a, D1, DefaultProvider>, ()>, U0);
-#[derive(SystemData)] pub struct Z1760_4<'a, T0, T1, T2> where T0: Resource + ZRes + Default, T1: Resource, T2: Debug + Resource + for<'b> Hrtb<'b> { f0: Read<'a, T0>, f1: Option<Write<'a, T1, PanicHandler>>, f2: Read<'a, T2>, f3: Read<'a, D1, Hc<D3>>, }
-#[derive(SystemData)] pub struct Z1760_5<'a>(pub Read<'a, D3, DefaultProvider>, pub (), pub ReadExpect<'a, D3>, pub Option<Read<'a, D3, PanicHandler>>);
-#[derive(SystemData)] pub struct Z1760_0<'a, 'x>(Z1760_1<'a, Z1760_3<'a>>, (Z1760_4<'a, D3, D1, D3>, ReadExpect<'a, D3>, Read<'a, D3, Hc<D1>>, Z1760_5<'a>, ), PhantomData<&'x i64>);
-shredh::zoo_case!(c1760, 1760, 'a, Z1760_0<'a, 'static>);
-#[derive(SystemData)] pub struct Z1768_0<'a> { pub f0: Read<'a, D2, Hc<D0>>, pub f1: Read<'a, D2, PanicHandler>, pub f2: Write<'a, D2>, }
-#[derive(SystemData)] pub struct Z1768_1<'a> { f0: ReadExpect<'a, D2>, f1: Read<'a, D2, Hc<D0>>, f2: Read<'a, D2, DefaultProvider>, }
-#[derive(SystemData)] pub struct Z1768_2<'a> { pub f0: (Option<Write<'a, D2, PanicHandler>>, ), pub f1: Write<'a, D0, Hc<D2>>, pub f2: Write<'a, D0>, pub f3: Write<'a, D0, Hc<D2>>, }
-shredh::zoo_case!(c1768, 1768, 'a, ((Z1768_0<'a>, Z1768_1<'a>, (Read<'a, D0, Hc<D2>>, ), Read<'a, D0>, ), Z1768_2<'a>, ));
-#[derive(SystemData)] pub struct Z1776_1<'a, T0: Debug + Resource> { f0: Write<'a, T0>, }
-#[derive(SystemData)] pub struct Z1776_0<'a, U0: SystemData<'a>>(PhantomData<str>, U0, Write<'a, D2, Hc<D3>>, Option<Read<'a, N1>>);
-shredh::zoo_case!(c1776, 1776, 'a, Z1776_0<'a, Z1776_1<'a, D2>>);
-#[derive(SystemData)] pub struct Z1784_2<'a> { pub f0: Write<'a, D0, Hc<D2>>, pub f1: (), }
-#[derive(SystemData)] pub struct Z1784_3<'a, T0, T1>(pub ReadExpect<'a, T0>, pub Read<'a, T1, Hc<D0>>, pub Option<Read<'a, D2>>, pub ()) where T0: Resource + ZRes, T1: Resource + ZRes;
-#[derive(SystemData)] pub struct Z1784_1<'a> { f0: Z1784_2<'a>, f1: Z1784_3<'a, D0, D2>, }
-#[derive(SystemData)] pub struct Z1784_4<'a, T0> where T0: Debug + Resource + for<'b> Hrtb<'b> { pub f0: (), pub f1: Read<'a, T0, Hc<D0>>, pub f2: Write<'a, D0, PanicHandler>, }
-#[derive(SystemData)] pub struct Z1784_5<'a, U0: SystemData<'a>, U1: SystemData<'a>> { f0: U0, f1: (Write<'a, D0, DefaultProvider>, ), f2: U1, }
-#[derive(SystemData)] pub struct Z1784_0<'a> { pub f0: Z1784_1<'a>, pub f1: (Z1784_4<'a, D2>, ), pub f2: Z1784_5<'a, (Write<'a, D0, DefaultProvider>, Option<Write<'a, D0>>, WriteExpect<'a, D2>, ), Read<'a, D0, Hc<D2>>>, }
-shredh::zoo_case!(c1784, 1784, 'a, Z1784_0<'a>);
-#[derive(SystemData)] pub struct Z1792_1<'a> { f0: Option<Read<'a, N3, PanicHandler>>, }
-#[derive(SystemData)] pub struct Z1792_2<'a, U0> where U0: SystemData<'a> { pub f0: Option<ReadExpect<'a, N1>>, pub f1: Read<'a, N4, PanicHandler>, pub f2: U0, }
-#[derive(SystemData)] pub struct Z1792_3<'a> { f0: Option<Read<'a, N0, PanicHandler>>, f1: Option<Read<'a, N4, PanicHandler>>, f2: (), }
-#[derive(SystemData)] pub struct Z1792_0<'a, T0: Resource, U0>(Z1792_1<'a>, Option<WriteExpect<'a, T0>>, U0) where U0: SystemData<'a>;
-shredh::zoo_case!(c1792, 1792, 'a, Z1792_0<'a, N1, (Z1792_2<'a, ReadExpect<'a, N1>>, Z1792_3<'a>, ReadExpect<'a, N1>, ((), ), )>);
-#[derive(SystemData)] pub struct Z1800_2<'a> { pub f0: Write<'a, D1, Hc<D2>>, pub f1: Write<'a, D2, DefaultProvider>, }
-#[derive(SystemData)] pub struct Z1800_1<'a>(pub Option<WriteExpect<'a, D2>>, pub Z1800_2<'a>, pub (Option<WriteExpect<'a, D2>>, PhantomData<[u32]>, Option<Read<'a, D2>>, ), pub (Write<'a, D1, Hc<D2>>, Write<'a, D2, Hc<D1>>, Option<WriteExpect<'a, D2>>, ));
-#[derive(SystemData)] pub struct Z1800_0<'a> { pub f0: Z1800_1<'a>, }
-shredh::zoo_case!(c1800, 1800, 'a, Z1800_0<'a>);
-#[derive(SystemData)] pub struct Z1808_0<'a>(pub (Write<'a, D0, Hc<D1>>, (), ), pub (Option<Read<'a, D1, PanicHandler>>, PhantomData<u8>, Option<Write<'a, D1, PanicHandler>>, ), pub Write<'a, D1, PanicHandler>);
-shredh::zoo_case!(c1808, 1808, 'a, (WriteExpect<'a, D0>, Z1808_0<'a>, ));
-#[derive(SystemData)] pub struct Z1816_2<'a, T0: Debug + Resource, T1: Debug + Resource + for<'b> Hrtb<'b>, T2: Resource>(pub ReadExpect<'a, T0>, pub Option<Read<'a, T1, PanicHandler>>, pub Option<Write<'a, T2, PanicHandler>>, pub Read<'a, D1, DefaultProvider>);
-#[derive(SystemData)] pub struct Z1816_1<'a>(pub Option<WriteExpect<'a, N3>>, pub (Read<'a, N0, PanicHandler>, Option<Read<'a, N0>>, ReadExpect<'a, D1>, Option<Read<'a, D1>>, ), pub Read<'a, D1>, pub Z1816_2<'a, N3, D1, N0>);
-#[derive(SystemData)] pub struct Z1816_0<'a, 'x, T0> where T0: Debug + Resource + for<'b> Hrtb<'b> { f0: PhantomData<&'x i64>, f1: Read<'a, T0, PanicHandler>, f2: Z1816_1<'a>, }
-shredh::zoo_case!(c1816, 1816, 'a, Z1816_0<'a, 'a, N0>);
-#[derive(SystemData)] pub struct Z1824_1<'a, U0: SystemData<'a>, U1: SystemData<'a>> { f0: U0, f1: Option<Read<'a, D0, PanicHandler>>, f2: U1, }
-#[derive(SystemData)] pub struct Z1824_0<'a> { pub f0: (Option<ReadExpect<'a, D2>>, Read<'a, D0, Hc<D2>>, Read<'a, D2, Hc<D0>>, ), pub f1: Z1824_1<'a, Write<'a, D0, DefaultProvider>, Read<'a, D2>>, pub f2: PhantomData<fn() -> N2>, pub f3: Read<'a, D2>, }
-shredh::zoo_case!(c1824, 1824, 'a, Z1824_0<'a>);
-#[derive(SystemData)] pub struct Z1832_1<'a, T0: Debug + Resource + for<'b> Hrtb<'b>> { f0: Read<'a, T0, PanicHandler>, f1: (), }
-#[derive(SystemData)] pub struct Z1832_0<'a, T0>(pub Option<Read<'a, T0>>, pub Z1832_1<'a, N3>) where T0: Resource;
-shredh::zoo_case!(c1832, 1832, 'a, Z1832_0<'a, D0>);
-#[derive(SystemData)] pub struct Z1840_2<'a, T0: Resource, T1>(pub Option<ReadExpect<'a, T0>>, pub Write<'a, D2, PanicHandler>, pub Option<Write<'a, T1, PanicHandler>>) where T1: Debug + Resource + for<'b> Hrtb<'b>;
-#[derive(SystemData)] pub struct Z1840_3<'a>(pub PhantomData<[u32]>, pub Read<'a, D3, Hc<D2>>);
-#[derive(SystemData)] pub struct Z1840_1<'a>(pub Z1840_2<'a, D3, D2>, pub Read<'a, D2>, pub Z1840_3<'a>);
-#[derive(SystemData)] pub struct Z1840_0<'a> { pub f0: ((Option<Read<'a, D3>>, ReadExpect<'a, D2>, Write<'a, D3, Hc<D2>>, Option<Read<'a, D2>>, ), ), pub f1: ((), Write<'a, D2, Hc<D3>>, ), pub f2: Z1840_1<'a>, pub f3: Write<'a, D3, Hc<D2>>, }
-shredh::zoo_case!(c1840, 1840, 'a, Z1840_0<'a>);
-#[derive(SystemData)] pub struct Z1848_0<'a, U0: SystemData<'a>> { pub f0: U0, pub f1: Write<'a, D1>, pub f2: Read<'a, D1, PanicHandler>, }
-shredh::zoo_case!(c1848, 1848, 'a, (Z1848_0<'a, PhantomData<D0>>, ));
-#[derive(SystemData)] pub struct Z1856_1<'a, 'x> { pub f0: Read<'a, D3, DefaultProvider>, pub f1: Option<Read<'a, N1, PanicHandler>>, pub f2: PhantomData<&'x i64>, }
-#[derive(SystemData)] pub struct Z1856_0<'a>(Write<'a, D3, DefaultProvider>, (Z1856_1<'a, 'a>, ));
-shredh::zoo_case!(c1856, 1856, 'a, Z1856_0<'a>);
-#[derive(SystemData)] pub struct Z1864_0<'a> { f0: Option<Read<'a, D1, PanicHandler>>, f1: Write<'a, D1, DefaultProvider>, f2: (), f3: Option<Write<'a, D3, PanicHandler>>, }
-shredh::zoo_case!(c1864, 1864, 'a, ((), Z1864_0<'a>, ReadExpect<'a, D2>, (Read<'a, D2>, PhantomData<[u32]>, Write<'a, D3>, ), ));
-#[derive(SystemData)] pub struct Z1872_0<'a> { f0: (WriteExpect<'a, D0>, Option<Write<'a, D0>>, ), }
-shredh::zoo_case!(c1872, 1872, 'a, Z1872_0<'a>);
-#[derive(SystemData)] pub struct Z1880_0<'a>(Read<'a, D0, Hc<D1>>, ReadExpect<'a, D0>, PhantomData<(Write<'a, D1>,)>, Write<'a, D2, Hc<D0>>, Write<'a, D2, DefaultProvider>, Option<Read<'a, D0, PanicHandler>>, Option<Read<'a, D1, PanicHandler>>, WriteExpect<'a, D0>, Option<Write<'a, D1>>, Option<Write<'a, D1>>, Read<'a, D0, DefaultProvider>, ());
-shredh::zoo_case!(c1880, 1880, 'a, Z1880_0<'a>);
-#[derive(SystemData)] pub struct Z1888_0<'a> { pub f0: Write<'a, D5, DefaultProvider>, pub f1: Option<Write<'a, D1, PanicHandler>>, pub f2: PhantomData<[u32]>, pub f3: PhantomData<u8>, pub f4: Read<'a, D4, Hc<D1>>, }
-shredh::zoo_case!(c1888, 1888, 'a, Z1888_0<'a>);
-#[derive(SystemData)] pub struct Z1896_0<'a>(Option<Read<'a, D0>>, Write<'a, D5, Hc<D1>>, Option<WriteExpect<'a, N3>>);
-#[derive(SystemData)] pub struct Z1896_1<'a>(pub Read<'a, D0, PanicHandler>);
-shredh::zoo_case!(c1896, 1896, 'a, (Read<'a, D4>, Z1896_0<'a>, Read<'a, D1, PanicHandler>, Option<Read<'a, D0>>, (), Read<'a, D1, Hc<D4>>, Z1896_1<'a>, Write<'a, D7, Hc<D5>>, Write<'a, D5, PanicHandler>, ));
-#[derive(SystemData)] pub struct Z1904_0<'a>(PhantomData<D0>, (), ReadExpect<'a, D3>, Option<Read<'a, N4>>, Read<'a, D2, PanicHandler>, (), (), Option<Read<'a, N4, PanicHandler>>, Read<'a, D3, DefaultProvider>, PhantomData<[u32]>, PhantomData<D0>, Read<'a, D2>, Read<'a, D1, DefaultProvider>, Read<'a, D1>, Read<'a, D1, PanicHandler>, PhantomData<[u32]>, PhantomData<D0>);
-shredh::zoo_case!(c1904, 1904, 'a, Z1904_0<'a>);
-#[derive(SystemData)] pub struct Z1912_0<'a, T0: Resource + ZRes, U0: SystemData<'a>, T1: Debug + Resource, T2: Resource, U1, U2: SystemData<'a>>(Option<Read<'a, T0>>, U0, ReadExpect<'a, T1>, ReadExpect<'a, T2>, U1, Write<'a, D1, Hc<D3>>, U2, (), Option<Write<'a, D3, PanicHandler>>, Read<'a, D2, DefaultProvider>, Write<'a, D3, Hc<D1>>, Write<'a, D4, PanicHandler>, Read<'a, D1>, Read<'a, D2>, Write<'a, D2, DefaultProvider>, Write<'a, D2, Hc<D1>>, ReadExpect<'a, D2>, Read<'a, D3, Hc<D5>>, Read<'a, D4, Hc<D3>>, Write<'a, D3, Hc<D5>>, Write<'a, D3, DefaultProvider>) where U1: SystemData<'a>;
-shredh::zoo_case!(c1912, 1912, 'a, Z1912_0<'a, D4, Read<'a, D4, Hc<D1>>, D1, D4, Read<'a, D4, Hc<D1>>, Write<'a, D1, Hc<D2>>>);
-#[derive(SystemData)] pub struct Z1920_1<'a>(pub Write<'a, D5>, pub Read<'a, D1, DefaultProvider>);
-#[derive(SystemData)] pub struct Z1920_2<'a> { pub f0: WriteExpect<'a, D2>, }
-#[derive(SystemData)] pub struct Z1920_3<'a> { pub f0: Read<'a, D2, DefaultProvider>, }
-#[derive(SystemData)] pub struct Z1920_4<'a, T0: Debug + Resource, T1: Debug + Resource + Default, T2: Resource> { f0: Option<ReadExpect<'a, T0>>, f1: Write<'a, T1, DefaultProvider>, f2: Write<'a, T2, PanicHandler>, }
-#[derive(SystemData)] pub struct Z1920_0<'a>(Write<'a, D4, Hc<D5>>, Option<Read<'a, D0, PanicHandler>>, Write<'a, D4, Hc<D5>>, Z1920_1<'a>, (Write<'a, D5>, Write<'a, D1, Hc<D0>>, ), PhantomData<str>, Z1920_2<'a>, PhantomData<[u32]>, Option<WriteExpect<'a, D0>>, Write<'a, D2, PanicHandler>, PhantomData<[u32]>, (), Write<'a, D1>, Option<Read<'a, D0, PanicHandler>>, ReadExpect<'a, D0>, Read<'a, D1, DefaultProvider>, Write<'a, D1, Hc<D0>>, Read<'a, D4, PanicHandler>, Z1920_3<'a>, (Read<'a, D5, PanicHandler>, ), ReadExpect<'a, D4>, Z1920_4<'a, D5, D2, D4>, Read<'a, D2>);
-shredh::zoo_case!(c1920, 1920, 'a, Z1920_0<'a>);
-shredh::zoo_case!(c1928, 1928, 'a, (Read<'a, D2, PanicHandler>, Option<Write<'a, D16>>, PhantomData<[u32]>, PhantomData<&'a u8>, Read<'a, D15, Hc<D16>>, (), Write<'a, D22, DefaultProvider>, Option<Write<'a, D8>>, PhantomData<str>, Write<'a, D20>, Option<WriteExpect<'a, D1>>, Read<'a, D24>, Write<'a, D9, DefaultProvider>, Write<'a, D19, DefaultProvider>, PhantomData<u8>, Read<'a, D14, Hc<D8>>, Write<'a, D7, PanicHandler>, (), Read<'a, D11>, Option<Read<'a, N25, PanicHandler>>, Option<ReadExpect<'a, N6>>, Write<'a, D18, Hc<D15>>, Read<'a, D5, PanicHandler>, Read<'a, D10, Hc<D21>>, (), Write<'a, D21, Hc<D7>>, ));
-#[derive(SystemData)] pub struct Z1936_0<'a, U0: SystemData<'a>, U1: SystemData<'a>, U2: SystemData<'a>>(U0, U1, U2, Write<'a, D19, Hc<D22>>, Write<'a, D7, PanicHandler>, Read<'a, D10, Hc<D19>>, ReadExpect<'a, D22>, Write<'a, D5, Hc<D22>>, Read<'a, D9, Hc<D5>>);
-shredh::zoo_case!(c1936, 1936, 'a, Z1936_0<'a, Write<'a, D18, Hc<D7>>, (), Read<'a, D1>>);
-#[derive(SystemData)] pub struct Z1944_0<'a, 'x, T0, T1, T2: Debug + Resource + for<'b> Hrtb<'b>> where T0: Debug + Resource, T1: Debug + Resource { pub f0: ReadExpect<'a, D21>, pub f1: Read<'a, T0, Hc<D10>>, pub f2: Write<'a, D0>, pub f3: Read<'a, D23, Hc<D22>>, pub f4: Write<'a, T1, Hc<D7>>, pub f5: Write<'a, T2>, pub f6: PhantomData<&'x i64>, pub f7: Option<WriteExpect<'a, D10>>, pub f8: (), pub f9: Read<'a, D18, DefaultProvider>, pub f10: Read<'a, D7, DefaultProvider>, }
-shredh::zoo_case!(c1944, 1944, 'a, Z1944_0<'a, 'static, D22, D12, D9>);
-#[derive(SystemData)] pub struct Z1952_0<'a, T0>(pub Read<'a, T0>, pub PhantomData<u8>, pub Read<'a, D2, DefaultProvider>, pub PhantomData<u8>) where T0: Resource + ZRes + Default;
-shredh::zoo_case!(c1952, 1952, 'a, Z1952_0<'a, D2>);
-#[derive(SystemData)] pub struct Z1960_1<'a> { f0: PhantomData<&'a u8>, }
-#[derive(SystemData)] pub struct Z1960_2<'a, T0: Resource + ZRes, U0, U1>(pub Write<'a, T0, Hc<D1>>, pub U0, pub U1) where U0: SystemData<'a>, U1: SystemData<'a>;
-#[derive(SystemData)] pub struct Z1960_0<'a, T0: Resource, T1: Debug + Resource + for<'b> Hrtb<'b>, U0: SystemData<'a>, T2: Resource, U1, U2>(Read<'a, T0, Hc<D1>>, Z1960_1<'a>, WriteExpect<'a, T1>, Read<'a, D2, Hc<D1>>, U0, ((), Read<'a, D0, DefaultProvider>, ), Read<'a, T2, PanicHandler>, (), Z1960_2<'a, D3, Read<'a, D3, Hc<D0>>, Write<'a, D2>>, U1, U2) where U1: SystemData<'a>, U2: SystemData<'a>;
-shredh::zoo_case!(c1960, 1960, 'a, Z1960_0<'a, D3, D0, Read<'a, D1>, D1, ((), ), Write<'a, D2>>);
-shredh::zoo_case!(c1968, 1968, 'a, ((), Read<'a, D4, Hc<D1>>, ReadExpect<'a, N0>, Option<Read<'a, D1>>, Write<'a, D5, Hc<D4>>, Write<'a, D2, Hc<D5>>, ));
-shredh::zoo_case!(c1976, 1976, 'a, ((), Read<'a, D3>, ReadExpect<'a, D1>, Read<'a, D3, PanicHandler>, ));
-shredh::zoo_case!(c1984, 1984, 'a, (Write<'a, D2, DefaultProvider>, Write<'a, D1, Hc<D2>>, Option<Write<'a, D2, PanicHandler>>, Write<'a, D0, DefaultProvider>, Write<'a, D0, PanicHandler>, Write<'a, D1, Hc<D0>>, Write<'a, D2, PanicHandler>, Write<'a, D0, Hc<D2>>, Read<'a, D1, Hc<D2>>, WriteExpect<'a, D1>, Read<'a, D0, PanicHandler>, PhantomData<fn() -> N2>, Read<'a, D2, Hc<D1>>, Read<'a, D2, PanicHandler>, Option<Read<'a, D1, PanicHandler>>, WriteExpect<'a, D2>, Read<'a, D0>, (), Write<'a, D2, Hc<D1>>, Read<'a, D2>, Write<'a, D2>, Read<'a, D0, DefaultProvider>, ));
-#[derive(SystemData)] pub struct Z1992_0<'a, T0: Resource, T1: Debug + Resource + for<'b> Hrtb<'b>, T2: Debug + Resource + for<'b> Hrtb<'b>> { pub f0: Read<'a, T0, DefaultProvider>, pub f1: Write<'a, N1, PanicHandler>, pub f2: (), pub f3: WriteExpect<'a, T1>, pub f4: Write<'a, D3>, pub f5: Option<WriteExpect<'a, T2>>, pub f6: Option<WriteExpect<'a, N2>>, pub f7: Write<'a, D3, DefaultProvider>, }
-shredh::zoo_case!(c1992, 1992, 'a, Z1992_0<'a, D4, N2, N2>);
-shredh::zoo_case!(c2000, 2000, 'a, (Read<'a, D22, Hc<D3>>, Write<'a, D6, Hc<D18>>, (), PhantomData<fn() -> N2>, Write<'a, D17>, (), Read<'a, D7, Hc<D17>>, Option<Read<'a, D11, PanicHandler>>, Option<Read<'a, D23>>, Option<Write<'a, D12, PanicHandler>>, Option<Read<'a, N9, PanicHandler>>, (), Write<'a, D10, Hc<D12>>, Write<'a, D8>, Read<'a, D2, Hc<D14>>, Write<'a, D5, Hc<D13>>, (), (), Read<'a, D25, Hc<D2>>, Read<'a, D14, PanicHandler>, Read<'a, D24, Hc<D6>>, Write<'a, D15, Hc<D24>>, Read<'a, D21, DefaultProvider>, ));
-shredh::zoo_case!(c2008, 2008, 'a, (Read<'a, D3>, Read<'a, D1, PanicHandler>, (), (), Read<'a, D2, DefaultProvider>, Option<Read<'a, D2>>, ));
-#[derive(SystemData)] pub struct Z2016_1<'a, U0: SystemData<'a>> { f0: ReadExpect<'a, D5>, f1: Write<'a, D7, Hc<D0>>, f2: U0, }
-#[derive(SystemData)] pub struct Z2016_2<'a, T0: Debug + Resource + for<'b> Hrtb<'b>, T1: Debug + Resource>(Option<WriteExpect<'a, T0>>, Write<'a, T1, DefaultProvider>, Read<'a, D7, Hc<D5>>);
-#[derive(SystemData)] pub struct Z2016_0<'a, T0: Resource + ZRes, T1: Debug + Resource + for<'b> Hrtb<'b> + Default, T2: Debug + Resource + for<'b> Hrtb<'b>> { pub f0: (), pub f1: PhantomData<D0>, pub f2: Write<'a, T0, Hc<D7>>, pub f3: (Write<'a, D2, Hc<D6>>, ), pub f4: Read<'a, T1, DefaultProvider>, pub f5: (), pub f6: Option<WriteExpect<'a, T2>>, pub f7: Z2016_1<'a, Read<'a, D1>>, pub f8: Read<'a, D6>, pub f9: ReadExpect<'a, D0>, pub f10: Read<'a, D0, DefaultProvider>, pub f11: (), pub f12: Option<Read<'a, D6>>, pub f13: PhantomData<str>, pub f14: Z2016_2<'a, D0, D6>, pub f15: Option<ReadExpect<'a, D0>>, pub f16: PhantomData<u8>, }
-shredh::zoo_case!(c2016, 2016, 'a, Z2016_0<'a, D5, D5, D0>);
-shredh::zoo_case!(c2024, 2024, 'a, (PhantomData<&'a u8>, PhantomData<u8>, (), Option<ReadExpect<'a, D0>>, Read<'a, D1, PanicHandler>, PhantomData<dyn Send>, Read<'a, D0, PanicHandler>, Read<'a, D1, DefaultProvider>, (), ));
-#[derive(SystemData)] pub struct Z2032_0<'a, U0: SystemData<'a>, U1: SystemData<'a>, U2: SystemData<'a>> { pub f0: U0, pub f1: U1, pub f2: U2, pub f3: Option<Read<'a, N2, PanicHandler>>, pub f4: (), pub f5: Read<'a, D1, PanicHandler>, pub f6: (), pub f7: Option<Read<'a, D3>>, pub f8: PhantomData<dyn Send>, pub f9: (), pub f10: PhantomData<(Write<'a, D1>,)>, pub f11: Read<'a, D3, PanicHandler>, pub f12: (), pub f13: Option<Read<'a, D3>>, pub f14: Option<Read<'a, D1, PanicHandler>>, pub f15: Read<'a, D3>, pub f16: Read<'a, D1>, pub f17: Option<Read<'a, D3>>, pub f18: PhantomData<str>, pub f19: PhantomData<(Write<'a, D1>,)>, }
-shredh::zoo_case!(c2032, 2032, 'a, Z2032_0<'a, Read<'a, D0, DefaultProvider>, (), Read<'a, D1, DefaultProvider>>);
-#[derive(SystemData)] pub struct Z2040_1<'a>(Option<WriteExpect<'a, D3>>, Option<Read<'a, D3>>, Option<ReadExpect<'a, D0>>);
-#[derive(SystemData)] pub struct Z2040_2<'a, T0: Resource + ZRes, T1: Debug + Resource + for<'b> Hrtb<'b>>(pub Write<'a, T0, PanicHandler>, pub Read<'a, T1, Hc<D0>>);
-#[derive(SystemData)] pub struct Z2040_3<'a, T0: Resource + ZRes, T1: Resource, T2: Debug + Resource>(Read<'a, T0, PanicHandler>, Write<'a, T1, PanicHandler>, WriteExpect<'a, T2>);
-#[derive(SystemData)] pub struct Z2040_0<'a, T0: Debug + Resource + for<'b> Hrtb<'b>, U0, T1: Debug + Resource, U1: SystemData<'a>, U2, T2: Debug + Resource + for<'b> Hrtb<'b>> where U0: SystemData<'a>, U2: SystemData<'a> { f0: Z2040_1<'a>, f1: Option<Write<'a, T0, PanicHandler>>, f2: U0, f3: Read<'a, T1, Hc<D3>>, f4: U1, f5: (Option<Read<'a, D2>>, Write<'a, D2, Hc<D3>>, ), f6: U2, f7: Write<'a, T2, Hc<D0>>, f8: Write<'a, D3>, f9: Read<'a, D3, Hc<D0>>, f10: Read<'a, D3, Hc<D0>>, f11: Write<'a, D2, Hc<D0>>, f12: Read<'a, D3, Hc<D2>>, f13: Write<'a, D0, PanicHandler>, f14: Z2040_3<'a, D3, D2, D2>, }
-shredh::zoo_case!(c2040, 2040, 'a, Z2040_0<'a, D0, Option<WriteExpect<'a, D2>>, D2, Z2040_2<'a, D0, D2>, Read<'a, D2, PanicHandler>, D2>);
-shredh::zoo_case!(c2048, 2048, 'a, (PhantomData<&'a u8>, Option<Write<'a, D2>>, Read<'a, D3, DefaultProvider>, Option<Read<'a, D2, PanicHandler>>, Read<'a, D2, Hc<D0>>, (), Write<'a, D0, PanicHandler>, Read<'a, D0, Hc<D3>>, Option<WriteExpect<'a, N1>>, ReadExpect<'a, D0>, ReadExpect<'a, D3>, ));
-#[derive(SystemData)] pub struct Z2056_0<'a, U0: SystemData<'a>, U1: SystemData<'a>, U2: SystemData<'a>>(U0, U1, U2, Write<'a, D6, Hc<D16>>, Write<'a, D25, DefaultProvider>, Write<'a, D4, DefaultProvider>, (), Option<Read<'a, N21>>, Write<'a, D19, DefaultProvider>, Option<Read<'a, N9, PanicHandler>>, PhantomData<[u32]>, Write<'a, D18, Hc<D10>>, (), Write<'a, D14>, Read<'a, D10>, Read<'a, D15, PanicHandler>, ReadExpect<'a, N1>, Read<'a, D16>, Read<'a, D0, Hc<D6>>, Write<'a, D8, Hc<D10>>, Write<'a, D23>, Write<'a, N22, PanicHandler>, Read<'a, D7, Hc<D19>>, Option<Read<'a, D12>>);
-shredh::zoo_case!(c2056, 2056, 'a, Z2056_0<'a, Read<'a, D11>, Read<'a, D5, Hc<D11>>, Write<'a, D20, DefaultProvider>>);
-#[derive(SystemData)] pub struct Z2064_0<'a, T0, T1, T2>(pub Option<Read<'a, D3>>, pub Option<Read<'a, T0, PanicHandler>>, pub PhantomData<T0>, pub ReadExpect<'a, T1>, pub (), pub Read<'a, T2>, pub PhantomData<T0>, pub Read<'a, D2, DefaultProvider>, pub Option<Read<'a, D3>>, pub ReadExpect<'a, D3>, pub PhantomData<T0>, pub (), pub (), pub Read<'a, D2, DefaultProvider>, pub (), pub Read<'a, D3, PanicHandler>, pub (), pub ReadExpect<'a, N1>) where T0: Debug + Resource + for<'b> Hrtb<'b>, T1: Debug + Resource + for<'b> Hrtb<'b>, T2: Resource;
-shredh::zoo_case!(c2064, 2064, 'a, Z2064_0<'a, D3, N1, D3>);
-#[derive(SystemData)] pub struct Z2072_0<'a, T0, T1, T2> where T0: Resource + ZRes, T1: Debug + Resource, T2: Resource { f0: Write<'a, D2>, f1: (), f2: Write<'a, T0, Hc<D1>>, f3: (), f4: Read<'a, D2, Hc<D1>>, f5: Write<'a, T1>, f6: PhantomData<dyn Send>, f7: Option<Write<'a, T2>>, f8: ReadExpect<'a, D5>, f9: Read<'a, D5, PanicHandler>, f10: Read<'a, D3, Hc<D4>>, f11: (), f12: ReadExpect<'a, D1>, f13: Write<'a, D1, DefaultProvider>, f14: Read<'a, D5, DefaultProvider>, f15: ReadExpect<'a, D5>, f16: ReadExpect<'a, D3>, f17: Write<'a, D4, Hc<D5>>, f18: WriteExpect<'a, D5>, f19: Read<'a, D2, DefaultProvider>, }
-shredh::zoo_case!(c2072, 2072, 'a, Z2072_0<'a, D3, D1, D3>);
-#[derive(SystemData)] pub struct Z2080_0<'a, 'x>(pub Read<'a, D19>, pub Write<'a, N15, PanicHandler>, pub ReadExpect<'a, D25>, pub PhantomData<&'x i64>, pub ReadExpect<'a, N7>, pub Write<'a, D24, Hc<D13>>, pub PhantomData<str>, pub Option<ReadExpect<'a, N16>>, pub Write<'a, D4, DefaultProvider>, pub Read<'a, D20, Hc<D11>>, pub Write<'a, N1, PanicHandler>, pub Read<'a, D18, PanicHandler>, pub Option<ReadExpect<'a, N3>>, pub WriteExpect<'a, N23>, pub Option<ReadExpect<'a, D13>>, pub Write<'a, D11, Hc<D19>>, pub Option<Write<'a, D14, PanicHandler>>, pub Read<'a, D0>);
-shredh::zoo_case!(c2080, 2080, 'a, Z2080_0<'a, 'a>);
-shredh::zoo_case!(c2088, 2088, 'a, (PhantomData<[u32]>, WriteExpect<'a, N25>, WriteExpect<'a, D16>, Read<'a, D20, Hc<D23>>, ReadExpect<'a, N22>, PhantomData<&'a u8>, Write<'a, D13, DefaultProvider>, Read<'a, D15, DefaultProvider>, Write<'a, D23>, PhantomData<D0>, Write<'a, D19, Hc<D17>>, Write<'a, D3>, PhantomData<&'a u8>, (), Read<'a, D1, Hc<D0>>, Read<'a, D21, DefaultProvider>, WriteExpect<'a, D8>, WriteExpect<'a, N12>, PhantomData<u8>, Read<'a, D11, DefaultProvider>, Read<'a, D7, Hc<D16>>, Write<'a, D10, DefaultProvider>, Write<'a, D9>, (), Option<Read<'a, D2>>, ReadExpect<'a, N18>, ));
-pub static CASES: &[&shredh::zoo::Ops] = &[
-    &c8::OPS,
-    &c16::OPS,
-    &c24::OPS,
-    &c32::OPS,
-    &c40::OPS,
-    &c48::OPS,
-    &c56::OPS,
-    &c64::OPS,
-    &c72::OPS,
-    &c80::OPS,
-    &c88::OPS,
-    &c96::OPS,
-    &c104::OPS,
-    &c112::OPS,
-    &c120::OPS,
-    &c128::OPS,
-    &c136::OPS,
-    &c144::OPS,
-    &c152::OPS,
-    &c160::OPS,
-    &c168::OPS,
-    &c176::OPS,
-    &c184::OPS,
-    &c192::OPS,
-    &c200::OPS,
-    &c208::OPS,
-    &c216::OPS,
-    &c224::OPS,
-    &c232::OPS,
-    &c240::OPS,
-    &c248::OPS,
-    &c256::OPS,
-    &c264::OPS,
-    &c272::OPS,
-    &c280::OPS,
-    &c288::OPS,
-    &c296::OPS,
-    &c304::OPS,
-    &c312::OPS,
-    &c320::OPS,
-    &c328::OPS,
-    &c336::OPS,
-    &c344::OPS,
-    &c352::OPS,
-    &c360::OPS,
-    &c368::OPS,
-    &c376::OPS,
-    &c384::OPS,
-    &c392::OPS,
-    &c400::OPS,
-    &c408::OPS,
-    &c416::OPS,
-    &c424::OPS,
-    &c432::OPS,
-    &c440::OPS,
-    &c448::OPS,
-    &c456::OPS,
-    &c464::OPS,
-    &c472::OPS,
-    &c480::OPS,
-    &c488::OPS,
-    &c496::OPS,
-    &c504::OPS,
-    &c512::OPS,
-    &c520::OPS,
-    &c528::OPS,
-    &c536::OPS,
-    &c544::OPS,
-    &c552::OPS,
-    &c560::OPS,
-    &c568::OPS,
-    &c576::OPS,
-    &c584::OPS,
-    &c592::OPS,
-    &c600::OPS,
-    &c608::OPS,
-    &c616::OPS,
-    &c624::OPS,
-    &c632::OPS,
-    &c640::OPS,
-    &c648::OPS,
-    &c656::OPS,
-    &c664::OPS,
-    &c672::OPS,
-    &c680::OPS,
-    &c688::OPS,
-    &c696::OPS,
-    &c704::OPS,
-    &c712::OPS,
-    &c720::OPS,
-    &c728::OPS,
-    &c736::OPS,
-    &c744::OPS,
-    &c752::OPS,
-    &c760::OPS,
-    &c768::OPS,
-    &c776::OPS,
-    &c784::OPS,
-    &c792::OPS,
-    &c800::OPS,
-    &c808::OPS,
-    &c816::OPS,
-    &c824::OPS,
-    &c832::OPS,
-    &c840::OPS,
-    &c848::OPS,
-    &c856::OPS,
-    &c864::OPS,
-    &c872::OPS,
-    &c880::OPS,
-    &c888::OPS,
-    &c896::OPS,
-    &c904::OPS,
-    &c912::OPS,
-    &c920::OPS,
-    &c928::OPS,
-    &c936::OPS,
-    &c944::OPS,
-    &c952::OPS,
-    &c960::OPS,
-    &c968::OPS,
-    &c976::OPS,
-    &c984::OPS,
-    &c992::OPS,
-    &c1000::OPS,
-    &c1008::OPS,
-    &c1016::OPS,
-    &c1024::OPS,
-    &c1032::OPS,
-    &c1040::OPS,
-    &c1048::OPS,
-    &c1056::OPS,
-    &c1064::OPS,
-    &c1072::OPS,
-    &c1080::OPS,
-    &c1088::OPS,
-    &c1096::OPS,
-    &c1104::OPS,
-    &c1112::OPS,
-    &c1120::OPS,
-    &c1128::OPS,
-    &c1136::OPS,
-    &c1144::OPS,
-    &c1152::OPS,
-    &c1160::OPS,
-    &c1168::OPS,
-    &c1176::OPS,
-    &c1184::OPS,
-    &c1192::OPS,
-    &c1200::OPS,
-    &c1208::OPS,
-    &c1216::OPS,
-    &c1224::OPS,
-    &c1232::OPS,
-    &c1240::OPS,
-    &c1248::OPS,
-    &c1256::OPS,
-    &c1264::OPS,
-    &c1272::OPS,
-    &c1280::OPS,
-    &c1288::OPS,
-    &c1296::OPS,
-    &c1304::OPS,
-    &c1312::OPS,
-    &c1320::OPS,
-    &c1328::OPS,
-    &c1336::OPS,
-    &c1344::OPS,
-    &c1352::OPS,
-    &c1360::OPS,
-    &c1368::OPS,
-    &c1376::OPS,
-    &c1384::OPS,
-    &c1392::OPS,
-    &c1400::OPS,
-    &c1408::OPS,
-    &c1416::OPS,
-    &c1424::OPS,
-    &c1432::OPS,
-    &c1440::OPS,
-    &c1448::OPS,
-    &c1456::OPS,
-    &c1464::OPS,
-    &c1472::OPS,
-    &c1480::OPS,
-    &c1488::OPS,
-    &c1496::OPS,
-    &c1504::OPS,
-    &c1512::OPS,
-    &c1520::OPS,
-    &c1528::OPS,
-    &c1536::OPS,
-    &c1544::OPS,
-    &c1552::OPS,
-    &c1560::OPS,
-    &c1568::OPS,
-    &c1576::OPS,
-    &c1584::OPS,
-    &c1592::OPS,
-    &c1600::OPS,
-    &c1608::OPS,
-    &c1616::OPS,
-    &c1624::OPS,
-    &c1632::OPS,
-    &c1640::OPS,
-    &c1648::OPS,
-    &c1656::OPS,
-    &c1664::OPS,
-    &c1672::OPS,
-    &c1680::OPS,
-    &c1688::OPS,
-    &c1696::OPS,
-    &c1704::OPS,
-    &c1712::OPS,
-    &c1720::OPS,
-    &c1728::OPS,
-    &c1736::OPS,
-    &c1744::OPS,
-    &c1752::OPS,
-    &c1760::OPS,
-    &c1768::OPS,
-    &c1776::OPS,
-    &c1784::OPS,
-    &c1792::OPS,
-    &c1800::OPS,
-    &c1808::OPS,
-    &c1816::OPS,
-    &c1824::OPS,
-    &c1832::OPS,
-    &c1840::OPS,
-    &c1848::OPS,
-    &c1856::OPS,
-    &c1864::OPS,
-    &c1872::OPS,
-    &c1880::OPS,
-    &c1888::OPS,
-    &c1896::OPS,
-    &c1904::OPS,
-    &c1912::OPS,
-    &c1920::OPS,
-    &c1928::OPS,
-    &c1936::OPS,
-    &c1944::OPS,
-    &c1952::OPS,
-    &c1960::OPS,
-    &c1968::OPS,
-    &c1976::OPS,
-    &c1984::OPS,
-    &c1992::OPS,
-    &c2000::OPS,
-    &c2008::OPS,
-    &c2016::OPS,
-    &c2024::OPS,
-    &c2032::OPS,
-    &c2040::OPS,
-    &c2048::OPS,
-    &c2056::OPS,
-    &c2064::OPS,
-    &c2072::OPS,
-    &c2080::OPS,
-    &c2088::OPS,
-];
+// placeholder written by harness/gen/zoo.py (the real file is a build artefact of bin/check C06)
+pub const GEN_HASH: &str = "placeholder";
+pub static CASES: &[&shredh::zoo::Ops] = &[];
